@@ -75,6 +75,12 @@ variables
   cvHeld = [op \in Ops |-> FALSE],
   sdres = [op \in Ops |-> FALSE],
   jpanic = [op \in Ops |-> FALSE],
+  sfst = [f \in Ops |-> "WFQ"],
+  slotSt = [f \in Ops |-> 0],
+  qrSent = [f \in Ops |-> FALSE],
+  qrWaker = [f \in Ops |-> NoW],
+  dnState = [f \in Ops |-> "open"],
+  dnWaker = [f \in Ops |-> NoW],
   parkTok = [t \in Procs |-> FALSE],
   rv = [t \in Procs |-> 0],
   rwb = [t \in Procs |-> << >>],
@@ -97,7 +103,7 @@ define {
                           ELSE IF ~busy[p] THEN [kind |-> "take", p |-> p, i |-> i]
                           ELSE FirstDormant(i + 1)
 
-  NeedsFinish(j) == jkind[j] \in {"fut", "syncbg"}
+  NeedsFinish(j) == jkind[j] \in {"fut", "slot", "syncbg"}
   Unpark(tok, ts) == [t \in Procs |-> tok[t] \/ t \in ts]
   TaskOf(w) == IF w.k = "TASK" THEN {w.t} ELSE {}
   SeqSet(sq) == {sq[i] : i \in 1..Len(sq)}
@@ -267,6 +273,8 @@ z_dispatch:
   else if (K(bcur) = "try_sync") { call TrySync(O(bcur), bcur); goto rb_step; }
   else if (K(bcur) \in {"fdesync", "after"}) { jkind[bcur] := "fut"; call ScheduleJob(O(bcur), bcur); goto z_then; }
   else if (K(bcur) = "suspend") { jkind[bcur] := "susp"; call ScheduleJob(O(bcur), bcur); goto z_then; }
+  else if (K(bcur) = "fsync") { jkind[bcur] := "slot"; call ScheduleJob(O(bcur), bcur); goto z_then; }
+  else if (K(bcur) = "dropf") { call DropFuture(OpTab[bcur].f); goto rb_step; }
   else if (K(bcur) \in {"fire", "resume", "drop_resumer"}) {
     h := IF K(bcur) = "fire" THEN ObsFire(h, GateOfOp(bcur)) ELSE ObsResume(h, self, OpTab[bcur].f);
     gfired := gfired \cup {GateOfOp(bcur)};
@@ -278,13 +286,17 @@ z_dispatch:
     else { goto rb_step; }
   }
   else if (K(bcur) = "await") { call Await(OpTab[bcur].f); goto rb_step; }
-  else if (K(bcur) = "poll") { call PollFuture(OpTab[bcur].f, NoW); goto z_polled; }
+  else if (K(bcur) = "poll") {
+    if (K(OpTab[bcur].f) = "fsync") { call PollSync(OpTab[bcur].f, NoW); goto z_polled; }
+    else { call PollFuture(OpTab[bcur].f, NoW); goto z_polled; }
+  }
   else if (K(bcur) = "wait_sync") { call WaitSync(OpTab[bcur].f, bcur); goto rb_step; }
   else if (K(bcur) = "set_max") { goto mx_set; }
   else if (K(bcur) = "despawn") { call Despawn(); goto rb_step; }
   else { rv[self] := 0; goto rb_step; };
 z_then:
   if (rv[self] = 0 /\ OpTab[bcur].then = "await") { call Await(bcur); goto rb_step; }
+  else if (rv[self] = 0 /\ OpTab[bcur].then = "drop" /\ K(bcur) = "fsync") { call DropFuture(bcur); goto rb_step; }
   else { goto rb_step; };
 z_polled:
   if (rv[self] \in {0, 3, 4}) { h := ObsResolved(h, self, OpTab[bcur].f, rv[self]); };
@@ -315,6 +327,14 @@ z_rj:
     rv[self] := 0; return;
   }
   else if (K(jj) = "wait_sync") { goto ws_take; }
+  else if (K(jj) = "fsync") {
+    \* the slot job of future_sync: signal queue_ready, then wait for task_finished
+    if (slotSt[jj] = 0) {
+      slotSt[jj] := 1; qrSent[jj] := TRUE;
+      if (IsLocking(qrWaker[jj])) { call Wake(qrWaker[jj]); goto z_slot2; }
+      else { parkTok := Unpark(parkTok, TaskOf(qrWaker[jj])); goto z_slot2; }
+    } else { goto z_slot2; }
+  }
   else {
     \* suspend
     if (jaw[jj] = 0) { goto sus_signal; }
@@ -323,6 +343,9 @@ z_rj:
   };
 z_rj_ret:
   return;
+z_slot2:
+  if (dnState[jj] # "open") { rv[self] := 0; return; }
+  else { dnWaker[jj] := jwk; rv[self] := 5; return; };
 sus_signal:  \* [fres] the suspend job signals the future returned by suspend()
   with (w = fwaker[jj]) {
     fres[jj] := "some"; fwaker[jj] := NoW;
@@ -345,7 +368,7 @@ ws_take:     \* [fres] the closure of SchedulerFuture::sync takes the result
 \* ---- things a finished (or panicked) job does when it is dropped, before its runner takes its next lock
 procedure FinishJob(fj) {
 fj_lock:     \* [fres] SchedulerFutureSignaller::signal (or its drop, cancelling), [ready] UnsafeJob::drop
-  if (jkind[fj] = "fut") {
+  if (jkind[fj] \in {"fut", "slot"}) {
     with (w = fwaker[fj]) {
       fres[fj] := IF jpanic[fj] THEN "cancelled" ELSE "some"; fwaker[fj] := NoW;
       if (IsLocking(w)) { call Wake(w); }
@@ -545,7 +568,7 @@ ts_panic:    \* [core]
 \* ---- block_on(future of op af) by the task running on this thread
 procedure Await(af) {
 z_aw_poll:
-  call PollFuture(af, TASK(self));
+  if (K(af) = "fsync") { call PollSync(af, TASK(self)); } else { call PollFuture(af, TASK(self)); };
 z_aw_after:
   if (rv[self] = 5) { goto aw_park; }
   else { if (rv[self] \in {0, 3, 4}) { h := ObsResolved(h, self, af, rv[self]); }; return; };
@@ -563,6 +586,66 @@ fs_take:     \* [fres]
   else { call Sync(O(wf), wop); };
 z_fs_after:
   if (rv[self] = 0) { h := ObsResolved(h, self, wf, 0); };
+  return;
+}
+
+\* ---- SyncFuture::poll (the future returned by future_sync) in context sctx
+procedure PollSync(sf, sctx) {
+z_ps:
+  if (sfst[sf] = "WFQ") { call PollFuture(sf, sctx); }
+  else if (sfst[sf] = "WFF") {
+    if (jaw[sf] > 0 /\ Aw(sf)[jaw[sf]] \notin gfired) { gwaker[Aw(sf)[jaw[sf]]] := sctx; rv[self] := 5; return; }
+    else { call RunOps(Body(sf), sf, sctx); goto z_ps_f; }
+  }
+  else if (sfst[sf] = "WFS") { goto z_ps_s; }
+  else { rv[self] := 4; return; };
+z_ps_q:
+  if (rv[self] \in {2, 4}) { sfst[sf] := "Done"; dnState[sf] := "sent"; return; }
+  else if (qrSent[sf]) {
+    \* the queue has reached the slot: create the user's future and poll it
+    sfst[sf] := "WFF";
+    h := ObsStart(h, self, sf);
+    call RunOps(Body(sf), sf, sctx);
+  }
+  else { qrWaker[sf] := sctx; rv[self] := 5; return; };
+z_ps_f:
+  if (rv[self] = 5) { return; }
+  else if (rv[self] = 9) {
+    \* the user future panicked in the polling task: the SyncFuture is dropped while unwinding (nothing marks the queue)
+    sfst[sf] := "Done"; dnState[sf] := "dropped";
+    if (IsLocking(dnWaker[sf])) { call Wake(dnWaker[sf]); goto z_ps_panic; }
+    else { parkTok := Unpark(parkTok, TaskOf(dnWaker[sf])); goto z_ps_panic; }
+  }
+  else {
+    sfst[sf] := "WFS"; dnState[sf] := "sent";
+    if (IsLocking(dnWaker[sf])) { call Wake(dnWaker[sf]); }
+    else { parkTok := Unpark(parkTok, TaskOf(dnWaker[sf])); }
+  };
+z_ps_s:
+  call PollFuture(sf, sctx);
+z_ps_s2:
+  if (rv[self] = 5) { return; }
+  else { sfst[sf] := "Done"; rv[self] := 0; return; };
+z_ps_panic:
+  rv[self] := 2;
+  return;
+}
+
+\* ---- dropping a stored future (a SchedulerFuture just goes away; a SyncFuture cancels its operation)
+procedure DropFuture(xf) {
+z_df:
+  if (K(xf) # "fsync" \/ sfst[xf] = "Done") { h := ObsDropped(h, self, xf); rv[self] := 0; return; }
+  else {
+    if (sfst[xf] = "WFF") { h := ObsEnd(h, self, xf); };
+    sfst[xf] := "Done";
+    if (dnState[xf] = "open") {
+      dnState[xf] := "dropped";
+      if (IsLocking(dnWaker[xf])) { call Wake(dnWaker[xf]); }
+    }
+  };
+z_df2:
+  h := ObsDropped(h, self, xf);
+  rv[self] := 0;
   return;
 }
 
@@ -686,7 +769,8 @@ VARIABLES pc, qstate, qpoll, jobs, wakeBlocked, schedule, pthreads, nspawned,
           palive, busy, busyLocked, inbox, chanOpen, pfin, thrHeld, 
           maxThreads, jkind, jaw, fres, fwaker, gfired, gwaker, gthreads, 
           dwSt, dwW, dblTaken, dblW1, dblW2, nextDW, ready, cwait, cnotif, 
-          cvHeld, sdres, jpanic, parkTok, rv, rwb, rneed, dsl, h, stack
+          cvHeld, sdres, jpanic, sfst, slotSt, qrSent, qrWaker, dnState, 
+          dnWaker, parkTok, rv, rwb, rneed, dsl, h, stack
 
 (* define statement *)
 RECURSIVE NTR(_)
@@ -703,7 +787,7 @@ FirstDormant(i) == IF i > Len(pthreads) THEN [kind |-> "none", p |-> "", i |-> i
                         ELSE IF ~busy[p] THEN [kind |-> "take", p |-> p, i |-> i]
                         ELSE FirstDormant(i + 1)
 
-NeedsFinish(j) == jkind[j] \in {"fut", "syncbg"}
+NeedsFinish(j) == jkind[j] \in {"fut", "slot", "syncbg"}
 Unpark(tok, ts) == [t \in Procs |-> tok[t] \/ t \in ts]
 TaskOf(w) == IF w.k = "TASK" THEN {w.t} ELSE {}
 SeqSet(sq) == {sq[i] : i \in 1..Len(sq)}
@@ -714,16 +798,17 @@ LiveWaiters(q) == SelectSeq(wakeBlocked[q], CvAlive)
 
 VARIABLES dead, sti, rq, sq, sj, ww, rsq, bown, bwk, bi, bcur, bw, jq, jj, 
           jwk, fj, dq, dj, oq, oop, omode, oj, yq, yop, tq, top, af, wf, wop, 
-          pf, pctx, pq, pj, pd, nq
+          sf, sctx, xf, pf, pctx, pq, pj, pd, nq
 
 vars == << pc, qstate, qpoll, jobs, wakeBlocked, schedule, pthreads, nspawned, 
            palive, busy, busyLocked, inbox, chanOpen, pfin, thrHeld, 
            maxThreads, jkind, jaw, fres, fwaker, gfired, gwaker, gthreads, 
            dwSt, dwW, dblTaken, dblW1, dblW2, nextDW, ready, cwait, cnotif, 
-           cvHeld, sdres, jpanic, parkTok, rv, rwb, rneed, dsl, h, stack, 
-           dead, sti, rq, sq, sj, ww, rsq, bown, bwk, bi, bcur, bw, jq, jj, 
-           jwk, fj, dq, dj, oq, oop, omode, oj, yq, yop, tq, top, af, wf, wop, 
-           pf, pctx, pq, pj, pd, nq >>
+           cvHeld, sdres, jpanic, sfst, slotSt, qrSent, qrWaker, dnState, 
+           dnWaker, parkTok, rv, rwb, rneed, dsl, h, stack, dead, sti, rq, sq, 
+           sj, ww, rsq, bown, bwk, bi, bcur, bw, jq, jj, jwk, fj, dq, dj, oq, 
+           oop, omode, oj, yq, yop, tq, top, af, wf, wop, sf, sctx, xf, pf, 
+           pctx, pq, pj, pd, nq >>
 
 ProcSet == (Threads) \cup (PoolSet)
 
@@ -762,6 +847,12 @@ Init == (* Global variables *)
         /\ cvHeld = [op \in Ops |-> FALSE]
         /\ sdres = [op \in Ops |-> FALSE]
         /\ jpanic = [op \in Ops |-> FALSE]
+        /\ sfst = [f \in Ops |-> "WFQ"]
+        /\ slotSt = [f \in Ops |-> 0]
+        /\ qrSent = [f \in Ops |-> FALSE]
+        /\ qrWaker = [f \in Ops |-> NoW]
+        /\ dnState = [f \in Ops |-> "open"]
+        /\ dnWaker = [f \in Ops |-> NoW]
         /\ parkTok = [t \in Procs |-> FALSE]
         /\ rv = [t \in Procs |-> 0]
         /\ rwb = [t \in Procs |-> << >>]
@@ -810,6 +901,11 @@ Init == (* Global variables *)
         (* Procedure WaitSync *)
         /\ wf = [ self \in ProcSet |-> defaultInitValue]
         /\ wop = [ self \in ProcSet |-> defaultInitValue]
+        (* Procedure PollSync *)
+        /\ sf = [ self \in ProcSet |-> defaultInitValue]
+        /\ sctx = [ self \in ProcSet |-> defaultInitValue]
+        (* Procedure DropFuture *)
+        /\ xf = [ self \in ProcSet |-> defaultInitValue]
         (* Procedure PollFuture *)
         /\ pf = [ self \in ProcSet |-> defaultInitValue]
         /\ pctx = [ self \in ProcSet |-> defaultInitValue]
@@ -835,11 +931,12 @@ st_reap(self) == /\ pc[self] = "st_reap"
                                  jaw, fres, fwaker, gfired, gwaker, gthreads, 
                                  dwSt, dwW, dblTaken, dblW1, dblW2, nextDW, 
                                  ready, cwait, cnotif, cvHeld, sdres, jpanic, 
-                                 parkTok, rv, rwb, rneed, dsl, h, stack, sti, 
-                                 rq, sq, sj, ww, rsq, bown, bwk, bi, bcur, bw, 
-                                 jq, jj, jwk, fj, dq, dj, oq, oop, omode, oj, 
-                                 yq, yop, tq, top, af, wf, wop, pf, pctx, pq, 
-                                 pj, pd, nq >>
+                                 sfst, slotSt, qrSent, qrWaker, dnState, 
+                                 dnWaker, parkTok, rv, rwb, rneed, dsl, h, 
+                                 stack, sti, rq, sq, sj, ww, rsq, bown, bwk, 
+                                 bi, bcur, bw, jq, jj, jwk, fj, dq, dj, oq, 
+                                 oop, omode, oj, yq, yop, tq, top, af, wf, wop, 
+                                 sf, sctx, xf, pf, pctx, pq, pj, pd, nq >>
 
 st_join(self) == /\ pc[self] = "st_join"
                  /\ dead' = [dead EXCEPT ![self] = Tail(dead[self])]
@@ -853,11 +950,12 @@ st_join(self) == /\ pc[self] = "st_join"
                                  jkind, jaw, fres, fwaker, gfired, gwaker, 
                                  gthreads, dwSt, dwW, dblTaken, dblW1, dblW2, 
                                  nextDW, ready, cwait, cnotif, cvHeld, sdres, 
-                                 jpanic, parkTok, rv, rwb, rneed, dsl, stack, 
-                                 sti, rq, sq, sj, ww, rsq, bown, bwk, bi, bcur, 
-                                 bw, jq, jj, jwk, fj, dq, dj, oq, oop, omode, 
-                                 oj, yq, yop, tq, top, af, wf, wop, pf, pctx, 
-                                 pq, pj, pd, nq >>
+                                 jpanic, sfst, slotSt, qrSent, qrWaker, 
+                                 dnState, dnWaker, parkTok, rv, rwb, rneed, 
+                                 dsl, stack, sti, rq, sq, sj, ww, rsq, bown, 
+                                 bwk, bi, bcur, bw, jq, jj, jwk, fj, dq, dj, 
+                                 oq, oop, omode, oj, yq, yop, tq, top, af, wf, 
+                                 wop, sf, sctx, xf, pf, pctx, pq, pj, pd, nq >>
 
 st_dormant(self) == /\ pc[self] = "st_dormant"
                     /\ (thrHeld = "" \/ thrHeld = self) /\ (thrHeld = self => ~busyLocked[pthreads[sti[self]]])
@@ -884,11 +982,12 @@ st_dormant(self) == /\ pc[self] = "st_dormant"
                                     fres, fwaker, gfired, gwaker, gthreads, 
                                     dwSt, dwW, dblTaken, dblW1, dblW2, nextDW, 
                                     ready, cwait, cnotif, cvHeld, sdres, 
-                                    jpanic, parkTok, rv, rwb, rneed, dsl, h, 
-                                    rq, sq, sj, ww, rsq, bown, bwk, bi, bcur, 
-                                    bw, jq, jj, jwk, fj, dq, dj, oq, oop, 
+                                    jpanic, sfst, slotSt, qrSent, qrWaker, 
+                                    dnState, dnWaker, parkTok, rv, rwb, rneed, 
+                                    dsl, h, rq, sq, sj, ww, rsq, bown, bwk, bi, 
+                                    bcur, bw, jq, jj, jwk, fj, dq, dj, oq, oop, 
                                     omode, oj, yq, yop, tq, top, af, wf, wop, 
-                                    pf, pctx, pq, pj, pd, nq >>
+                                    sf, sctx, xf, pf, pctx, pq, pj, pd, nq >>
 
 st_max(self) == /\ pc[self] = "st_max"
                 /\ TRUE
@@ -899,11 +998,12 @@ st_max(self) == /\ pc[self] = "st_max"
                                 jkind, jaw, fres, fwaker, gfired, gwaker, 
                                 gthreads, dwSt, dwW, dblTaken, dblW1, dblW2, 
                                 nextDW, ready, cwait, cnotif, cvHeld, sdres, 
-                                jpanic, parkTok, rv, rwb, rneed, dsl, h, stack, 
-                                dead, sti, rq, sq, sj, ww, rsq, bown, bwk, bi, 
-                                bcur, bw, jq, jj, jwk, fj, dq, dj, oq, oop, 
-                                omode, oj, yq, yop, tq, top, af, wf, wop, pf, 
-                                pctx, pq, pj, pd, nq >>
+                                jpanic, sfst, slotSt, qrSent, qrWaker, dnState, 
+                                dnWaker, parkTok, rv, rwb, rneed, dsl, h, 
+                                stack, dead, sti, rq, sq, sj, ww, rsq, bown, 
+                                bwk, bi, bcur, bw, jq, jj, jwk, fj, dq, dj, oq, 
+                                oop, omode, oj, yq, yop, tq, top, af, wf, wop, 
+                                sf, sctx, xf, pf, pctx, pq, pj, pd, nq >>
 
 st_spawn(self) == /\ pc[self] = "st_spawn"
                   /\ thrHeld = ""
@@ -926,11 +1026,12 @@ st_spawn(self) == /\ pc[self] = "st_spawn"
                                   maxThreads, jkind, jaw, fres, fwaker, gfired, 
                                   gwaker, gthreads, dwSt, dwW, dblTaken, dblW1, 
                                   dblW2, nextDW, ready, cwait, cnotif, cvHeld, 
-                                  sdres, jpanic, parkTok, rv, rwb, rneed, dsl, 
-                                  rq, sq, sj, ww, rsq, bown, bwk, bi, bcur, bw, 
-                                  jq, jj, jwk, fj, dq, dj, oq, oop, omode, oj, 
-                                  yq, yop, tq, top, af, wf, wop, pf, pctx, pq, 
-                                  pj, pd, nq >>
+                                  sdres, jpanic, sfst, slotSt, qrSent, qrWaker, 
+                                  dnState, dnWaker, parkTok, rv, rwb, rneed, 
+                                  dsl, rq, sq, sj, ww, rsq, bown, bwk, bi, 
+                                  bcur, bw, jq, jj, jwk, fj, dq, dj, oq, oop, 
+                                  omode, oj, yq, yop, tq, top, af, wf, wop, sf, 
+                                  sctx, xf, pf, pctx, pq, pj, pd, nq >>
 
 ScheduleThread(self) == st_reap(self) \/ st_join(self) \/ st_dormant(self)
                            \/ st_max(self) \/ st_spawn(self)
@@ -963,11 +1064,12 @@ rq_core(self) == /\ pc[self] = "rq_core"
                                  pfin, thrHeld, maxThreads, jkind, jaw, fres, 
                                  fwaker, gfired, gwaker, gthreads, dwSt, dwW, 
                                  dblTaken, dblW1, dblW2, nextDW, ready, cwait, 
-                                 cvHeld, sdres, jpanic, parkTok, rv, dsl, h, 
-                                 dead, sti, sq, sj, ww, rsq, bown, bwk, bi, 
+                                 cvHeld, sdres, jpanic, sfst, slotSt, qrSent, 
+                                 qrWaker, dnState, dnWaker, parkTok, rv, dsl, 
+                                 h, dead, sti, sq, sj, ww, rsq, bown, bwk, bi, 
                                  bcur, bw, jq, jj, jwk, fj, dq, dj, oq, oop, 
-                                 omode, oj, yq, yop, tq, top, af, wf, wop, pf, 
-                                 pctx, pq, pj, pd, nq >>
+                                 omode, oj, yq, yop, tq, top, af, wf, wop, sf, 
+                                 sctx, xf, pf, pctx, pq, pj, pd, nq >>
 
 rq_notify(self) == /\ pc[self] = "rq_notify"
                    /\ cnotif' = [cnotif EXCEPT ![Head(rwb[self])] = cwait[Head(rwb[self])]]
@@ -987,11 +1089,13 @@ rq_notify(self) == /\ pc[self] = "rq_notify"
                                    maxThreads, jkind, jaw, fres, fwaker, 
                                    gfired, gwaker, gthreads, dwSt, dwW, 
                                    dblTaken, dblW1, dblW2, nextDW, ready, 
-                                   cwait, cvHeld, sdres, jpanic, parkTok, rv, 
-                                   rneed, dsl, h, dead, sti, sq, sj, ww, rsq, 
-                                   bown, bwk, bi, bcur, bw, jq, jj, jwk, fj, 
-                                   dq, dj, oq, oop, omode, oj, yq, yop, tq, 
-                                   top, af, wf, wop, pf, pctx, pq, pj, pd, nq >>
+                                   cwait, cvHeld, sdres, jpanic, sfst, slotSt, 
+                                   qrSent, qrWaker, dnState, dnWaker, parkTok, 
+                                   rv, rneed, dsl, h, dead, sti, sq, sj, ww, 
+                                   rsq, bown, bwk, bi, bcur, bw, jq, jj, jwk, 
+                                   fj, dq, dj, oq, oop, omode, oj, yq, yop, tq, 
+                                   top, af, wf, wop, sf, sctx, xf, pf, pctx, 
+                                   pq, pj, pd, nq >>
 
 rq_sched(self) == /\ pc[self] = "rq_sched"
                   /\ schedule' = Append(schedule, rq[self])
@@ -1009,11 +1113,12 @@ rq_sched(self) == /\ pc[self] = "rq_sched"
                                   jaw, fres, fwaker, gfired, gwaker, gthreads, 
                                   dwSt, dwW, dblTaken, dblW1, dblW2, nextDW, 
                                   ready, cwait, cnotif, cvHeld, sdres, jpanic, 
-                                  parkTok, rv, rwb, rneed, dsl, h, rq, sq, sj, 
-                                  ww, rsq, bown, bwk, bi, bcur, bw, jq, jj, 
-                                  jwk, fj, dq, dj, oq, oop, omode, oj, yq, yop, 
-                                  tq, top, af, wf, wop, pf, pctx, pq, pj, pd, 
-                                  nq >>
+                                  sfst, slotSt, qrSent, qrWaker, dnState, 
+                                  dnWaker, parkTok, rv, rwb, rneed, dsl, h, rq, 
+                                  sq, sj, ww, rsq, bown, bwk, bi, bcur, bw, jq, 
+                                  jj, jwk, fj, dq, dj, oq, oop, omode, oj, yq, 
+                                  yop, tq, top, af, wf, wop, sf, sctx, xf, pf, 
+                                  pctx, pq, pj, pd, nq >>
 
 Reschedule(self) == rq_core(self) \/ rq_notify(self) \/ rq_sched(self)
 
@@ -1041,10 +1146,12 @@ sj_push(self) == /\ pc[self] = "sj_push"
                                  jaw, fres, fwaker, gfired, gwaker, gthreads, 
                                  dwSt, dwW, dblTaken, dblW1, dblW2, nextDW, 
                                  ready, cwait, cnotif, cvHeld, sdres, jpanic, 
-                                 parkTok, rwb, rneed, dsl, h, dead, sti, rq, 
-                                 ww, rsq, bown, bwk, bi, bcur, bw, jq, jj, jwk, 
-                                 fj, dq, dj, oq, oop, omode, oj, yq, yop, tq, 
-                                 top, af, wf, wop, pf, pctx, pq, pj, pd, nq >>
+                                 sfst, slotSt, qrSent, qrWaker, dnState, 
+                                 dnWaker, parkTok, rwb, rneed, dsl, h, dead, 
+                                 sti, rq, ww, rsq, bown, bwk, bi, bcur, bw, jq, 
+                                 jj, jwk, fj, dq, dj, oq, oop, omode, oj, yq, 
+                                 yop, tq, top, af, wf, wop, sf, sctx, xf, pf, 
+                                 pctx, pq, pj, pd, nq >>
 
 sj_sched(self) == /\ pc[self] = "sj_sched"
                   /\ schedule' = Append(schedule, sq[self])
@@ -1062,11 +1169,12 @@ sj_sched(self) == /\ pc[self] = "sj_sched"
                                   jaw, fres, fwaker, gfired, gwaker, gthreads, 
                                   dwSt, dwW, dblTaken, dblW1, dblW2, nextDW, 
                                   ready, cwait, cnotif, cvHeld, sdres, jpanic, 
-                                  parkTok, rv, rwb, rneed, dsl, h, rq, sq, sj, 
-                                  ww, rsq, bown, bwk, bi, bcur, bw, jq, jj, 
-                                  jwk, fj, dq, dj, oq, oop, omode, oj, yq, yop, 
-                                  tq, top, af, wf, wop, pf, pctx, pq, pj, pd, 
-                                  nq >>
+                                  sfst, slotSt, qrSent, qrWaker, dnState, 
+                                  dnWaker, parkTok, rv, rwb, rneed, dsl, h, rq, 
+                                  sq, sj, ww, rsq, bown, bwk, bi, bcur, bw, jq, 
+                                  jj, jwk, fj, dq, dj, oq, oop, omode, oj, yq, 
+                                  yop, tq, top, af, wf, wop, sf, sctx, xf, pf, 
+                                  pctx, pq, pj, pd, nq >>
 
 z_sj_ret(self) == /\ pc[self] = "z_sj_ret"
                   /\ rv' = [rv EXCEPT ![self] = 0]
@@ -1080,11 +1188,12 @@ z_sj_ret(self) == /\ pc[self] = "z_sj_ret"
                                   jkind, jaw, fres, fwaker, gfired, gwaker, 
                                   gthreads, dwSt, dwW, dblTaken, dblW1, dblW2, 
                                   nextDW, ready, cwait, cnotif, cvHeld, sdres, 
-                                  jpanic, parkTok, rwb, rneed, dsl, h, dead, 
-                                  sti, rq, ww, rsq, bown, bwk, bi, bcur, bw, 
-                                  jq, jj, jwk, fj, dq, dj, oq, oop, omode, oj, 
-                                  yq, yop, tq, top, af, wf, wop, pf, pctx, pq, 
-                                  pj, pd, nq >>
+                                  jpanic, sfst, slotSt, qrSent, qrWaker, 
+                                  dnState, dnWaker, parkTok, rwb, rneed, dsl, 
+                                  h, dead, sti, rq, ww, rsq, bown, bwk, bi, 
+                                  bcur, bw, jq, jj, jwk, fj, dq, dj, oq, oop, 
+                                  omode, oj, yq, yop, tq, top, af, wf, wop, sf, 
+                                  sctx, xf, pf, pctx, pq, pj, pd, nq >>
 
 ScheduleJob(self) == sj_push(self) \/ sj_sched(self) \/ z_sj_ret(self)
 
@@ -1165,11 +1274,12 @@ wk_lock(self) == /\ pc[self] = "wk_lock"
                                  chanOpen, pfin, thrHeld, maxThreads, jkind, 
                                  jaw, fres, fwaker, gfired, gwaker, gthreads, 
                                  dblW1, dblW2, nextDW, ready, cwait, cnotif, 
-                                 cvHeld, sdres, jpanic, rv, rwb, rneed, dsl, h, 
-                                 dead, sti, sq, sj, rsq, bown, bwk, bi, bcur, 
-                                 bw, jq, jj, jwk, fj, dq, dj, oq, oop, omode, 
-                                 oj, yq, yop, tq, top, af, wf, wop, pf, pctx, 
-                                 pq, pj, pd, nq >>
+                                 cvHeld, sdres, jpanic, sfst, slotSt, qrSent, 
+                                 qrWaker, dnState, dnWaker, rv, rwb, rneed, 
+                                 dsl, h, dead, sti, sq, sj, rsq, bown, bwk, bi, 
+                                 bcur, bw, jq, jj, jwk, fj, dq, dj, oq, oop, 
+                                 omode, oj, yq, yop, tq, top, af, wf, wop, sf, 
+                                 sctx, xf, pf, pctx, pq, pj, pd, nq >>
 
 z_wk_second(self) == /\ pc[self] = "z_wk_second"
                      /\ IF IsLocking(dblW2[ww[self].d])
@@ -1187,11 +1297,13 @@ z_wk_second(self) == /\ pc[self] = "z_wk_second"
                                      fwaker, gfired, gwaker, gthreads, dwSt, 
                                      dwW, dblTaken, dblW1, dblW2, nextDW, 
                                      ready, cwait, cnotif, cvHeld, sdres, 
-                                     jpanic, rv, rwb, rneed, dsl, h, dead, sti, 
-                                     rq, sq, sj, rsq, bown, bwk, bi, bcur, bw, 
-                                     jq, jj, jwk, fj, dq, dj, oq, oop, omode, 
-                                     oj, yq, yop, tq, top, af, wf, wop, pf, 
-                                     pctx, pq, pj, pd, nq >>
+                                     jpanic, sfst, slotSt, qrSent, qrWaker, 
+                                     dnState, dnWaker, rv, rwb, rneed, dsl, h, 
+                                     dead, sti, rq, sq, sj, rsq, bown, bwk, bi, 
+                                     bcur, bw, jq, jj, jwk, fj, dq, dj, oq, 
+                                     oop, omode, oj, yq, yop, tq, top, af, wf, 
+                                     wop, sf, sctx, xf, pf, pctx, pq, pj, pd, 
+                                     nq >>
 
 z_wk_ret(self) == /\ pc[self] = "z_wk_ret"
                   /\ pc' = [pc EXCEPT ![self] = Head(stack[self]).pc]
@@ -1203,11 +1315,12 @@ z_wk_ret(self) == /\ pc[self] = "z_wk_ret"
                                   jkind, jaw, fres, fwaker, gfired, gwaker, 
                                   gthreads, dwSt, dwW, dblTaken, dblW1, dblW2, 
                                   nextDW, ready, cwait, cnotif, cvHeld, sdres, 
-                                  jpanic, parkTok, rv, rwb, rneed, dsl, h, 
-                                  dead, sti, rq, sq, sj, rsq, bown, bwk, bi, 
-                                  bcur, bw, jq, jj, jwk, fj, dq, dj, oq, oop, 
-                                  omode, oj, yq, yop, tq, top, af, wf, wop, pf, 
-                                  pctx, pq, pj, pd, nq >>
+                                  jpanic, sfst, slotSt, qrSent, qrWaker, 
+                                  dnState, dnWaker, parkTok, rv, rwb, rneed, 
+                                  dsl, h, dead, sti, rq, sq, sj, rsq, bown, 
+                                  bwk, bi, bcur, bw, jq, jj, jwk, fj, dq, dj, 
+                                  oq, oop, omode, oj, yq, yop, tq, top, af, wf, 
+                                  wop, sf, sctx, xf, pf, pctx, pq, pj, pd, nq >>
 
 Wake(self) == wk_lock(self) \/ z_wk_second(self) \/ z_wk_ret(self)
 
@@ -1234,11 +1347,12 @@ rb_step(self) == /\ pc[self] = "rb_step"
                                  jkind, jaw, fres, fwaker, gfired, gwaker, 
                                  gthreads, dwSt, dwW, dblTaken, dblW1, dblW2, 
                                  nextDW, ready, cwait, cnotif, cvHeld, sdres, 
-                                 jpanic, parkTok, rv, rwb, rneed, dsl, stack, 
-                                 dead, sti, rq, sq, sj, ww, rsq, bown, bwk, bw, 
-                                 jq, jj, jwk, fj, dq, dj, oq, oop, omode, oj, 
-                                 yq, yop, tq, top, af, wf, wop, pf, pctx, pq, 
-                                 pj, pd, nq >>
+                                 jpanic, sfst, slotSt, qrSent, qrWaker, 
+                                 dnState, dnWaker, parkTok, rv, rwb, rneed, 
+                                 dsl, stack, dead, sti, rq, sq, sj, ww, rsq, 
+                                 bown, bwk, bw, jq, jj, jwk, fj, dq, dj, oq, 
+                                 oop, omode, oj, yq, yop, tq, top, af, wf, wop, 
+                                 sf, sctx, xf, pf, pctx, pq, pj, pd, nq >>
 
 z_finish(self) == /\ pc[self] = "z_finish"
                   /\ IF bown[self] = 0
@@ -1320,10 +1434,12 @@ z_finish(self) == /\ pc[self] = "z_finish"
                                   inbox, chanOpen, pfin, thrHeld, maxThreads, 
                                   jkind, fres, fwaker, gfired, dwSt, dwW, 
                                   dblTaken, dblW1, dblW2, nextDW, ready, cwait, 
-                                  cnotif, cvHeld, parkTok, rwb, rneed, dsl, 
-                                  dead, sti, rq, sq, sj, ww, jq, jj, jwk, fj, 
-                                  dq, dj, oq, oop, omode, oj, yq, yop, tq, top, 
-                                  af, wf, wop, pf, pctx, pq, pj, pd, nq >>
+                                  cnotif, cvHeld, sfst, slotSt, qrSent, 
+                                  qrWaker, dnState, dnWaker, parkTok, rwb, 
+                                  rneed, dsl, dead, sti, rq, sq, sj, ww, jq, 
+                                  jj, jwk, fj, dq, dj, oq, oop, omode, oj, yq, 
+                                  yop, tq, top, af, wf, wop, sf, sctx, xf, pf, 
+                                  pctx, pq, pj, pd, nq >>
 
 rb_block(self) == /\ pc[self] = "rb_block"
                   /\ parkTok[self]
@@ -1335,11 +1451,12 @@ rb_block(self) == /\ pc[self] = "rb_block"
                                   jkind, jaw, fres, fwaker, gfired, gwaker, 
                                   gthreads, dwSt, dwW, dblTaken, dblW1, dblW2, 
                                   nextDW, ready, cwait, cnotif, cvHeld, sdres, 
-                                  jpanic, rv, rwb, rneed, dsl, h, stack, dead, 
-                                  sti, rq, sq, sj, ww, rsq, bown, bwk, bi, 
-                                  bcur, bw, jq, jj, jwk, fj, dq, dj, oq, oop, 
-                                  omode, oj, yq, yop, tq, top, af, wf, wop, pf, 
-                                  pctx, pq, pj, pd, nq >>
+                                  jpanic, sfst, slotSt, qrSent, qrWaker, 
+                                  dnState, dnWaker, rv, rwb, rneed, dsl, h, 
+                                  stack, dead, sti, rq, sq, sj, ww, rsq, bown, 
+                                  bwk, bi, bcur, bw, jq, jj, jwk, fj, dq, dj, 
+                                  oq, oop, omode, oj, yq, yop, tq, top, af, wf, 
+                                  wop, sf, sctx, xf, pf, pctx, pq, pj, pd, nq >>
 
 z_dispatch(self) == /\ pc[self] = "z_dispatch"
                     /\ IF K(bcur[self]) = "desync"
@@ -1354,7 +1471,8 @@ z_dispatch(self) == /\ pc[self] = "z_dispatch"
                                /\ pc' = [pc EXCEPT ![self] = "sj_push"]
                                /\ UNCHANGED << gfired, gwaker, parkTok, rv, h, 
                                                ww, bw, yq, yop, tq, top, af, 
-                                               wf, wop, pf, pctx, pq, pj, pd >>
+                                               wf, wop, sf, sctx, xf, pf, pctx, 
+                                               pq, pj, pd >>
                           ELSE /\ IF K(bcur[self]) \in {"sync", "drop_obj"}
                                      THEN /\ /\ stack' = [stack EXCEPT ![self] = << [ procedure |->  "Sync",
                                                                                       pc        |->  "rb_step",
@@ -1368,7 +1486,8 @@ z_dispatch(self) == /\ pc[self] = "z_dispatch"
                                                           gwaker, parkTok, rv, 
                                                           h, sq, sj, ww, bw, 
                                                           tq, top, af, wf, wop, 
-                                                          pf, pctx, pq, pj, pd >>
+                                                          sf, sctx, xf, pf, 
+                                                          pctx, pq, pj, pd >>
                                      ELSE /\ IF K(bcur[self]) = "try_sync"
                                                 THEN /\ /\ stack' = [stack EXCEPT ![self] = << [ procedure |->  "TrySync",
                                                                                                  pc        |->  "rb_step",
@@ -1386,9 +1505,10 @@ z_dispatch(self) == /\ pc[self] = "z_dispatch"
                                                                      sj, ww, 
                                                                      bw, af, 
                                                                      wf, wop, 
-                                                                     pf, pctx, 
-                                                                     pq, pj, 
-                                                                     pd >>
+                                                                     sf, sctx, 
+                                                                     xf, pf, 
+                                                                     pctx, pq, 
+                                                                     pj, pd >>
                                                 ELSE /\ IF K(bcur[self]) \in {"fdesync", "after"}
                                                            THEN /\ jkind' = [jkind EXCEPT ![bcur[self]] = "fut"]
                                                                 /\ /\ sj' = [sj EXCEPT ![self] = bcur[self]]
@@ -1409,6 +1529,9 @@ z_dispatch(self) == /\ pc[self] = "z_dispatch"
                                                                                 af, 
                                                                                 wf, 
                                                                                 wop, 
+                                                                                sf, 
+                                                                                sctx, 
+                                                                                xf, 
                                                                                 pf, 
                                                                                 pctx, 
                                                                                 pq, 
@@ -1434,109 +1557,187 @@ z_dispatch(self) == /\ pc[self] = "z_dispatch"
                                                                                            af, 
                                                                                            wf, 
                                                                                            wop, 
+                                                                                           sf, 
+                                                                                           sctx, 
+                                                                                           xf, 
                                                                                            pf, 
                                                                                            pctx, 
                                                                                            pq, 
                                                                                            pj, 
                                                                                            pd >>
-                                                                      ELSE /\ IF K(bcur[self]) \in {"fire", "resume", "drop_resumer"}
-                                                                                 THEN /\ h' = (IF K(bcur[self]) = "fire" THEN ObsFire(h, GateOfOp(bcur[self])) ELSE ObsResume(h, self, OpTab[bcur[self]].f))
-                                                                                      /\ gfired' = (gfired \cup {GateOfOp(bcur[self])})
-                                                                                      /\ bw' = [bw EXCEPT ![self] = gwaker[GateOfOp(bcur[self])]]
-                                                                                      /\ parkTok' = Unpark(parkTok, gthreads[GateOfOp(bcur[self])] \cup TaskOf(gwaker[GateOfOp(bcur[self])]))
-                                                                                      /\ gwaker' = [gwaker EXCEPT ![GateOfOp(bcur[self])] = NoW]
-                                                                                      /\ rv' = [rv EXCEPT ![self] = 0]
-                                                                                      /\ IF IsLocking(bw'[self])
-                                                                                            THEN /\ /\ stack' = [stack EXCEPT ![self] = << [ procedure |->  "Wake",
-                                                                                                                                             pc        |->  "rb_step",
-                                                                                                                                             ww        |->  ww[self] ] >>
-                                                                                                                                         \o stack[self]]
-                                                                                                    /\ ww' = [ww EXCEPT ![self] = bw'[self]]
-                                                                                                 /\ pc' = [pc EXCEPT ![self] = "wk_lock"]
-                                                                                            ELSE /\ pc' = [pc EXCEPT ![self] = "rb_step"]
-                                                                                                 /\ UNCHANGED << stack, 
-                                                                                                                 ww >>
-                                                                                      /\ UNCHANGED << af, 
+                                                                      ELSE /\ IF K(bcur[self]) = "fsync"
+                                                                                 THEN /\ jkind' = [jkind EXCEPT ![bcur[self]] = "slot"]
+                                                                                      /\ /\ sj' = [sj EXCEPT ![self] = bcur[self]]
+                                                                                         /\ sq' = [sq EXCEPT ![self] = O(bcur[self])]
+                                                                                         /\ stack' = [stack EXCEPT ![self] = << [ procedure |->  "ScheduleJob",
+                                                                                                                                  pc        |->  "z_then",
+                                                                                                                                  sq        |->  sq[self],
+                                                                                                                                  sj        |->  sj[self] ] >>
+                                                                                                                              \o stack[self]]
+                                                                                      /\ pc' = [pc EXCEPT ![self] = "sj_push"]
+                                                                                      /\ UNCHANGED << gfired, 
+                                                                                                      gwaker, 
+                                                                                                      parkTok, 
+                                                                                                      rv, 
+                                                                                                      h, 
+                                                                                                      ww, 
+                                                                                                      bw, 
+                                                                                                      af, 
                                                                                                       wf, 
                                                                                                       wop, 
+                                                                                                      sf, 
+                                                                                                      sctx, 
+                                                                                                      xf, 
                                                                                                       pf, 
                                                                                                       pctx, 
                                                                                                       pq, 
                                                                                                       pj, 
                                                                                                       pd >>
-                                                                                 ELSE /\ IF K(bcur[self]) = "await"
-                                                                                            THEN /\ /\ af' = [af EXCEPT ![self] = OpTab[bcur[self]].f]
-                                                                                                    /\ stack' = [stack EXCEPT ![self] = << [ procedure |->  "Await",
+                                                                                 ELSE /\ IF K(bcur[self]) = "dropf"
+                                                                                            THEN /\ /\ stack' = [stack EXCEPT ![self] = << [ procedure |->  "DropFuture",
                                                                                                                                              pc        |->  "rb_step",
-                                                                                                                                             af        |->  af[self] ] >>
+                                                                                                                                             xf        |->  xf[self] ] >>
                                                                                                                                          \o stack[self]]
-                                                                                                 /\ pc' = [pc EXCEPT ![self] = "z_aw_poll"]
-                                                                                                 /\ UNCHANGED << rv, 
+                                                                                                    /\ xf' = [xf EXCEPT ![self] = OpTab[bcur[self]].f]
+                                                                                                 /\ pc' = [pc EXCEPT ![self] = "z_df"]
+                                                                                                 /\ UNCHANGED << gfired, 
+                                                                                                                 gwaker, 
+                                                                                                                 parkTok, 
+                                                                                                                 rv, 
+                                                                                                                 h, 
+                                                                                                                 ww, 
+                                                                                                                 bw, 
+                                                                                                                 af, 
                                                                                                                  wf, 
                                                                                                                  wop, 
+                                                                                                                 sf, 
+                                                                                                                 sctx, 
                                                                                                                  pf, 
                                                                                                                  pctx, 
                                                                                                                  pq, 
                                                                                                                  pj, 
                                                                                                                  pd >>
-                                                                                            ELSE /\ IF K(bcur[self]) = "poll"
-                                                                                                       THEN /\ /\ pctx' = [pctx EXCEPT ![self] = NoW]
-                                                                                                               /\ pf' = [pf EXCEPT ![self] = OpTab[bcur[self]].f]
-                                                                                                               /\ stack' = [stack EXCEPT ![self] = << [ procedure |->  "PollFuture",
-                                                                                                                                                        pc        |->  "z_polled",
-                                                                                                                                                        pq        |->  pq[self],
-                                                                                                                                                        pj        |->  pj[self],
-                                                                                                                                                        pd        |->  pd[self],
-                                                                                                                                                        pf        |->  pf[self],
-                                                                                                                                                        pctx      |->  pctx[self] ] >>
-                                                                                                                                                    \o stack[self]]
-                                                                                                            /\ pq' = [pq EXCEPT ![self] = 0]
-                                                                                                            /\ pj' = [pj EXCEPT ![self] = 0]
-                                                                                                            /\ pd' = [pd EXCEPT ![self] = 0]
-                                                                                                            /\ pc' = [pc EXCEPT ![self] = "pf_decide"]
-                                                                                                            /\ UNCHANGED << rv, 
-                                                                                                                            wf, 
-                                                                                                                            wop >>
-                                                                                                       ELSE /\ IF K(bcur[self]) = "wait_sync"
-                                                                                                                  THEN /\ /\ stack' = [stack EXCEPT ![self] = << [ procedure |->  "WaitSync",
+                                                                                            ELSE /\ IF K(bcur[self]) \in {"fire", "resume", "drop_resumer"}
+                                                                                                       THEN /\ h' = (IF K(bcur[self]) = "fire" THEN ObsFire(h, GateOfOp(bcur[self])) ELSE ObsResume(h, self, OpTab[bcur[self]].f))
+                                                                                                            /\ gfired' = (gfired \cup {GateOfOp(bcur[self])})
+                                                                                                            /\ bw' = [bw EXCEPT ![self] = gwaker[GateOfOp(bcur[self])]]
+                                                                                                            /\ parkTok' = Unpark(parkTok, gthreads[GateOfOp(bcur[self])] \cup TaskOf(gwaker[GateOfOp(bcur[self])]))
+                                                                                                            /\ gwaker' = [gwaker EXCEPT ![GateOfOp(bcur[self])] = NoW]
+                                                                                                            /\ rv' = [rv EXCEPT ![self] = 0]
+                                                                                                            /\ IF IsLocking(bw'[self])
+                                                                                                                  THEN /\ /\ stack' = [stack EXCEPT ![self] = << [ procedure |->  "Wake",
                                                                                                                                                                    pc        |->  "rb_step",
-                                                                                                                                                                   wf        |->  wf[self],
-                                                                                                                                                                   wop       |->  wop[self] ] >>
+                                                                                                                                                                   ww        |->  ww[self] ] >>
                                                                                                                                                                \o stack[self]]
-                                                                                                                          /\ wf' = [wf EXCEPT ![self] = OpTab[bcur[self]].f]
-                                                                                                                          /\ wop' = [wop EXCEPT ![self] = bcur[self]]
-                                                                                                                       /\ pc' = [pc EXCEPT ![self] = "fs_take"]
-                                                                                                                       /\ rv' = rv
-                                                                                                                  ELSE /\ IF K(bcur[self]) = "set_max"
-                                                                                                                             THEN /\ pc' = [pc EXCEPT ![self] = "mx_set"]
-                                                                                                                                  /\ UNCHANGED << rv, 
-                                                                                                                                                  stack >>
-                                                                                                                             ELSE /\ IF K(bcur[self]) = "despawn"
-                                                                                                                                        THEN /\ stack' = [stack EXCEPT ![self] = << [ procedure |->  "Despawn",
-                                                                                                                                                                                      pc        |->  "rb_step" ] >>
-                                                                                                                                                                                  \o stack[self]]
-                                                                                                                                             /\ pc' = [pc EXCEPT ![self] = "ds_max"]
-                                                                                                                                             /\ rv' = rv
-                                                                                                                                        ELSE /\ rv' = [rv EXCEPT ![self] = 0]
-                                                                                                                                             /\ pc' = [pc EXCEPT ![self] = "rb_step"]
-                                                                                                                                             /\ stack' = stack
-                                                                                                                       /\ UNCHANGED << wf, 
-                                                                                                                                       wop >>
-                                                                                                            /\ UNCHANGED << pf, 
+                                                                                                                          /\ ww' = [ww EXCEPT ![self] = bw'[self]]
+                                                                                                                       /\ pc' = [pc EXCEPT ![self] = "wk_lock"]
+                                                                                                                  ELSE /\ pc' = [pc EXCEPT ![self] = "rb_step"]
+                                                                                                                       /\ UNCHANGED << stack, 
+                                                                                                                                       ww >>
+                                                                                                            /\ UNCHANGED << af, 
+                                                                                                                            wf, 
+                                                                                                                            wop, 
+                                                                                                                            sf, 
+                                                                                                                            sctx, 
+                                                                                                                            pf, 
                                                                                                                             pctx, 
                                                                                                                             pq, 
                                                                                                                             pj, 
                                                                                                                             pd >>
-                                                                                                 /\ af' = af
-                                                                                      /\ UNCHANGED << gfired, 
-                                                                                                      gwaker, 
-                                                                                                      parkTok, 
-                                                                                                      h, 
-                                                                                                      ww, 
-                                                                                                      bw >>
-                                                                           /\ UNCHANGED << jkind, 
-                                                                                           sq, 
-                                                                                           sj >>
+                                                                                                       ELSE /\ IF K(bcur[self]) = "await"
+                                                                                                                  THEN /\ /\ af' = [af EXCEPT ![self] = OpTab[bcur[self]].f]
+                                                                                                                          /\ stack' = [stack EXCEPT ![self] = << [ procedure |->  "Await",
+                                                                                                                                                                   pc        |->  "rb_step",
+                                                                                                                                                                   af        |->  af[self] ] >>
+                                                                                                                                                               \o stack[self]]
+                                                                                                                       /\ pc' = [pc EXCEPT ![self] = "z_aw_poll"]
+                                                                                                                       /\ UNCHANGED << rv, 
+                                                                                                                                       wf, 
+                                                                                                                                       wop, 
+                                                                                                                                       sf, 
+                                                                                                                                       sctx, 
+                                                                                                                                       pf, 
+                                                                                                                                       pctx, 
+                                                                                                                                       pq, 
+                                                                                                                                       pj, 
+                                                                                                                                       pd >>
+                                                                                                                  ELSE /\ IF K(bcur[self]) = "poll"
+                                                                                                                             THEN /\ IF K(OpTab[bcur[self]].f) = "fsync"
+                                                                                                                                        THEN /\ /\ sctx' = [sctx EXCEPT ![self] = NoW]
+                                                                                                                                                /\ sf' = [sf EXCEPT ![self] = OpTab[bcur[self]].f]
+                                                                                                                                                /\ stack' = [stack EXCEPT ![self] = << [ procedure |->  "PollSync",
+                                                                                                                                                                                         pc        |->  "z_polled",
+                                                                                                                                                                                         sf        |->  sf[self],
+                                                                                                                                                                                         sctx      |->  sctx[self] ] >>
+                                                                                                                                                                                     \o stack[self]]
+                                                                                                                                             /\ pc' = [pc EXCEPT ![self] = "z_ps"]
+                                                                                                                                             /\ UNCHANGED << pf, 
+                                                                                                                                                             pctx, 
+                                                                                                                                                             pq, 
+                                                                                                                                                             pj, 
+                                                                                                                                                             pd >>
+                                                                                                                                        ELSE /\ /\ pctx' = [pctx EXCEPT ![self] = NoW]
+                                                                                                                                                /\ pf' = [pf EXCEPT ![self] = OpTab[bcur[self]].f]
+                                                                                                                                                /\ stack' = [stack EXCEPT ![self] = << [ procedure |->  "PollFuture",
+                                                                                                                                                                                         pc        |->  "z_polled",
+                                                                                                                                                                                         pq        |->  pq[self],
+                                                                                                                                                                                         pj        |->  pj[self],
+                                                                                                                                                                                         pd        |->  pd[self],
+                                                                                                                                                                                         pf        |->  pf[self],
+                                                                                                                                                                                         pctx      |->  pctx[self] ] >>
+                                                                                                                                                                                     \o stack[self]]
+                                                                                                                                             /\ pq' = [pq EXCEPT ![self] = 0]
+                                                                                                                                             /\ pj' = [pj EXCEPT ![self] = 0]
+                                                                                                                                             /\ pd' = [pd EXCEPT ![self] = 0]
+                                                                                                                                             /\ pc' = [pc EXCEPT ![self] = "pf_decide"]
+                                                                                                                                             /\ UNCHANGED << sf, 
+                                                                                                                                                             sctx >>
+                                                                                                                                  /\ UNCHANGED << rv, 
+                                                                                                                                                  wf, 
+                                                                                                                                                  wop >>
+                                                                                                                             ELSE /\ IF K(bcur[self]) = "wait_sync"
+                                                                                                                                        THEN /\ /\ stack' = [stack EXCEPT ![self] = << [ procedure |->  "WaitSync",
+                                                                                                                                                                                         pc        |->  "rb_step",
+                                                                                                                                                                                         wf        |->  wf[self],
+                                                                                                                                                                                         wop       |->  wop[self] ] >>
+                                                                                                                                                                                     \o stack[self]]
+                                                                                                                                                /\ wf' = [wf EXCEPT ![self] = OpTab[bcur[self]].f]
+                                                                                                                                                /\ wop' = [wop EXCEPT ![self] = bcur[self]]
+                                                                                                                                             /\ pc' = [pc EXCEPT ![self] = "fs_take"]
+                                                                                                                                             /\ rv' = rv
+                                                                                                                                        ELSE /\ IF K(bcur[self]) = "set_max"
+                                                                                                                                                   THEN /\ pc' = [pc EXCEPT ![self] = "mx_set"]
+                                                                                                                                                        /\ UNCHANGED << rv, 
+                                                                                                                                                                        stack >>
+                                                                                                                                                   ELSE /\ IF K(bcur[self]) = "despawn"
+                                                                                                                                                              THEN /\ stack' = [stack EXCEPT ![self] = << [ procedure |->  "Despawn",
+                                                                                                                                                                                                            pc        |->  "rb_step" ] >>
+                                                                                                                                                                                                        \o stack[self]]
+                                                                                                                                                                   /\ pc' = [pc EXCEPT ![self] = "ds_max"]
+                                                                                                                                                                   /\ rv' = rv
+                                                                                                                                                              ELSE /\ rv' = [rv EXCEPT ![self] = 0]
+                                                                                                                                                                   /\ pc' = [pc EXCEPT ![self] = "rb_step"]
+                                                                                                                                                                   /\ stack' = stack
+                                                                                                                                             /\ UNCHANGED << wf, 
+                                                                                                                                                             wop >>
+                                                                                                                                  /\ UNCHANGED << sf, 
+                                                                                                                                                  sctx, 
+                                                                                                                                                  pf, 
+                                                                                                                                                  pctx, 
+                                                                                                                                                  pq, 
+                                                                                                                                                  pj, 
+                                                                                                                                                  pd >>
+                                                                                                                       /\ af' = af
+                                                                                                            /\ UNCHANGED << gfired, 
+                                                                                                                            gwaker, 
+                                                                                                                            parkTok, 
+                                                                                                                            h, 
+                                                                                                                            ww, 
+                                                                                                                            bw >>
+                                                                                                 /\ xf' = xf
+                                                                                      /\ UNCHANGED << jkind, 
+                                                                                                      sq, 
+                                                                                                      sj >>
                                                      /\ UNCHANGED << tq, top >>
                                           /\ UNCHANGED << yq, yop >>
                     /\ UNCHANGED << qstate, qpoll, jobs, wakeBlocked, schedule, 
@@ -1545,9 +1746,10 @@ z_dispatch(self) == /\ pc[self] = "z_dispatch"
                                     maxThreads, jaw, fres, fwaker, gthreads, 
                                     dwSt, dwW, dblTaken, dblW1, dblW2, nextDW, 
                                     ready, cwait, cnotif, cvHeld, sdres, 
-                                    jpanic, rwb, rneed, dsl, dead, sti, rq, 
-                                    rsq, bown, bwk, bi, bcur, jq, jj, jwk, fj, 
-                                    dq, dj, oq, oop, omode, oj, nq >>
+                                    jpanic, sfst, slotSt, qrSent, qrWaker, 
+                                    dnState, dnWaker, rwb, rneed, dsl, dead, 
+                                    sti, rq, rsq, bown, bwk, bi, bcur, jq, jj, 
+                                    jwk, fj, dq, dj, oq, oop, omode, oj, nq >>
 
 z_then(self) == /\ pc[self] = "z_then"
                 /\ IF rv[self] = 0 /\ OpTab[bcur[self]].then = "await"
@@ -1557,19 +1759,29 @@ z_then(self) == /\ pc[self] = "z_then"
                                                                        af        |->  af[self] ] >>
                                                                    \o stack[self]]
                            /\ pc' = [pc EXCEPT ![self] = "z_aw_poll"]
-                      ELSE /\ pc' = [pc EXCEPT ![self] = "rb_step"]
-                           /\ UNCHANGED << stack, af >>
+                           /\ xf' = xf
+                      ELSE /\ IF rv[self] = 0 /\ OpTab[bcur[self]].then = "drop" /\ K(bcur[self]) = "fsync"
+                                 THEN /\ /\ stack' = [stack EXCEPT ![self] = << [ procedure |->  "DropFuture",
+                                                                                  pc        |->  "rb_step",
+                                                                                  xf        |->  xf[self] ] >>
+                                                                              \o stack[self]]
+                                         /\ xf' = [xf EXCEPT ![self] = bcur[self]]
+                                      /\ pc' = [pc EXCEPT ![self] = "z_df"]
+                                 ELSE /\ pc' = [pc EXCEPT ![self] = "rb_step"]
+                                      /\ UNCHANGED << stack, xf >>
+                           /\ af' = af
                 /\ UNCHANGED << qstate, qpoll, jobs, wakeBlocked, schedule, 
                                 pthreads, nspawned, palive, busy, busyLocked, 
                                 inbox, chanOpen, pfin, thrHeld, maxThreads, 
                                 jkind, jaw, fres, fwaker, gfired, gwaker, 
                                 gthreads, dwSt, dwW, dblTaken, dblW1, dblW2, 
                                 nextDW, ready, cwait, cnotif, cvHeld, sdres, 
-                                jpanic, parkTok, rv, rwb, rneed, dsl, h, dead, 
+                                jpanic, sfst, slotSt, qrSent, qrWaker, dnState, 
+                                dnWaker, parkTok, rv, rwb, rneed, dsl, h, dead, 
                                 sti, rq, sq, sj, ww, rsq, bown, bwk, bi, bcur, 
                                 bw, jq, jj, jwk, fj, dq, dj, oq, oop, omode, 
-                                oj, yq, yop, tq, top, wf, wop, pf, pctx, pq, 
-                                pj, pd, nq >>
+                                oj, yq, yop, tq, top, wf, wop, sf, sctx, pf, 
+                                pctx, pq, pj, pd, nq >>
 
 z_polled(self) == /\ pc[self] = "z_polled"
                   /\ IF rv[self] \in {0, 3, 4}
@@ -1583,11 +1795,13 @@ z_polled(self) == /\ pc[self] = "z_polled"
                                   jkind, jaw, fres, fwaker, gfired, gwaker, 
                                   gthreads, dwSt, dwW, dblTaken, dblW1, dblW2, 
                                   nextDW, ready, cwait, cnotif, cvHeld, sdres, 
-                                  jpanic, parkTok, rv, rwb, rneed, dsl, stack, 
-                                  dead, sti, rq, sq, sj, ww, rsq, bown, bwk, 
-                                  bi, bcur, bw, jq, jj, jwk, fj, dq, dj, oq, 
-                                  oop, omode, oj, yq, yop, tq, top, af, wf, 
-                                  wop, pf, pctx, pq, pj, pd, nq >>
+                                  jpanic, sfst, slotSt, qrSent, qrWaker, 
+                                  dnState, dnWaker, parkTok, rv, rwb, rneed, 
+                                  dsl, stack, dead, sti, rq, sq, sj, ww, rsq, 
+                                  bown, bwk, bi, bcur, bw, jq, jj, jwk, fj, dq, 
+                                  dj, oq, oop, omode, oj, yq, yop, tq, top, af, 
+                                  wf, wop, sf, sctx, xf, pf, pctx, pq, pj, pd, 
+                                  nq >>
 
 mx_set(self) == /\ pc[self] = "mx_set"
                 /\ maxThreads' = OpTab[bcur[self]].n
@@ -1599,11 +1813,13 @@ mx_set(self) == /\ pc[self] = "mx_set"
                                 inbox, chanOpen, pfin, thrHeld, jkind, jaw, 
                                 fres, fwaker, gfired, gwaker, gthreads, dwSt, 
                                 dwW, dblTaken, dblW1, dblW2, nextDW, ready, 
-                                cwait, cnotif, cvHeld, sdres, jpanic, parkTok, 
-                                rwb, rneed, dsl, stack, dead, sti, rq, sq, sj, 
-                                ww, rsq, bown, bwk, bi, bcur, bw, jq, jj, jwk, 
-                                fj, dq, dj, oq, oop, omode, oj, yq, yop, tq, 
-                                top, af, wf, wop, pf, pctx, pq, pj, pd, nq >>
+                                cwait, cnotif, cvHeld, sdres, jpanic, sfst, 
+                                slotSt, qrSent, qrWaker, dnState, dnWaker, 
+                                parkTok, rwb, rneed, dsl, stack, dead, sti, rq, 
+                                sq, sj, ww, rsq, bown, bwk, bi, bcur, bw, jq, 
+                                jj, jwk, fj, dq, dj, oq, oop, omode, oj, yq, 
+                                yop, tq, top, af, wf, wop, sf, sctx, xf, pf, 
+                                pctx, pq, pj, pd, nq >>
 
 RunOps(self) == rb_step(self) \/ z_finish(self) \/ rb_block(self)
                    \/ z_dispatch(self) \/ z_then(self) \/ z_polled(self)
@@ -1628,7 +1844,8 @@ z_rj(self) == /\ pc[self] = "z_rj"
                          /\ bcur' = [bcur EXCEPT ![self] = 0]
                          /\ bw' = [bw EXCEPT ![self] = NoW]
                          /\ pc' = [pc EXCEPT ![self] = "rb_step"]
-                         /\ UNCHANGED << gwaker, sdres, rv, jq, jj, jwk >>
+                         /\ UNCHANGED << gwaker, sdres, slotSt, qrSent, 
+                                         parkTok, rv, ww, jq, jj, jwk >>
                     ELSE /\ IF K(jj[self]) = "fdesync"
                                THEN /\ IF jaw[jj[self]] = 0
                                           THEN /\ h' = ObsStart(h, self, jj[self])
@@ -1686,7 +1903,8 @@ z_rj(self) == /\ pc[self] = "z_rj"
                                                                           bcur, 
                                                                           bw >>
                                                /\ h' = h
-                                    /\ sdres' = sdres
+                                    /\ UNCHANGED << sdres, slotSt, qrSent, 
+                                                    parkTok, ww >>
                                ELSE /\ IF K(jj[self]) = "after"
                                           THEN /\ IF OpTab[jj[self]].g \in gfired
                                                      THEN /\ h' = ObsStart(h, self, jj[self])
@@ -1725,7 +1943,9 @@ z_rj(self) == /\ pc[self] = "z_rj"
                                                                           bi, 
                                                                           bcur, 
                                                                           bw >>
-                                               /\ sdres' = sdres
+                                               /\ UNCHANGED << sdres, slotSt, 
+                                                               qrSent, parkTok, 
+                                                               ww >>
                                           ELSE /\ IF K(jj[self]) = "drop_obj"
                                                      THEN /\ h' = ObsFreed(h, O(jj[self]))
                                                           /\ IF jkind[jj[self]] = "syncdrain"
@@ -1738,38 +1958,77 @@ z_rj(self) == /\ pc[self] = "z_rj"
                                                           /\ jj' = [jj EXCEPT ![self] = Head(stack[self]).jj]
                                                           /\ jwk' = [jwk EXCEPT ![self] = Head(stack[self]).jwk]
                                                           /\ stack' = [stack EXCEPT ![self] = Tail(stack[self])]
-                                                          /\ UNCHANGED gwaker
+                                                          /\ UNCHANGED << gwaker, 
+                                                                          slotSt, 
+                                                                          qrSent, 
+                                                                          parkTok, 
+                                                                          ww >>
                                                      ELSE /\ IF K(jj[self]) = "wait_sync"
                                                                 THEN /\ pc' = [pc EXCEPT ![self] = "ws_take"]
                                                                      /\ UNCHANGED << gwaker, 
+                                                                                     slotSt, 
+                                                                                     qrSent, 
+                                                                                     parkTok, 
                                                                                      rv, 
                                                                                      stack, 
+                                                                                     ww, 
                                                                                      jq, 
                                                                                      jj, 
                                                                                      jwk >>
-                                                                ELSE /\ IF jaw[jj[self]] = 0
-                                                                           THEN /\ pc' = [pc EXCEPT ![self] = "sus_signal"]
+                                                                ELSE /\ IF K(jj[self]) = "fsync"
+                                                                           THEN /\ IF slotSt[jj[self]] = 0
+                                                                                      THEN /\ slotSt' = [slotSt EXCEPT ![jj[self]] = 1]
+                                                                                           /\ qrSent' = [qrSent EXCEPT ![jj[self]] = TRUE]
+                                                                                           /\ IF IsLocking(qrWaker[jj[self]])
+                                                                                                 THEN /\ /\ stack' = [stack EXCEPT ![self] = << [ procedure |->  "Wake",
+                                                                                                                                                  pc        |->  "z_slot2",
+                                                                                                                                                  ww        |->  ww[self] ] >>
+                                                                                                                                              \o stack[self]]
+                                                                                                         /\ ww' = [ww EXCEPT ![self] = qrWaker[jj[self]]]
+                                                                                                      /\ pc' = [pc EXCEPT ![self] = "wk_lock"]
+                                                                                                      /\ UNCHANGED parkTok
+                                                                                                 ELSE /\ parkTok' = Unpark(parkTok, TaskOf(qrWaker[jj[self]]))
+                                                                                                      /\ pc' = [pc EXCEPT ![self] = "z_slot2"]
+                                                                                                      /\ UNCHANGED << stack, 
+                                                                                                                      ww >>
+                                                                                      ELSE /\ pc' = [pc EXCEPT ![self] = "z_slot2"]
+                                                                                           /\ UNCHANGED << slotSt, 
+                                                                                                           qrSent, 
+                                                                                                           parkTok, 
+                                                                                                           stack, 
+                                                                                                           ww >>
                                                                                 /\ UNCHANGED << gwaker, 
                                                                                                 rv, 
-                                                                                                stack, 
                                                                                                 jq, 
                                                                                                 jj, 
                                                                                                 jwk >>
-                                                                           ELSE /\ IF OpTab[jj[self]].g \in gfired
-                                                                                      THEN /\ pc' = [pc EXCEPT ![self] = "sus_inner"]
+                                                                           ELSE /\ IF jaw[jj[self]] = 0
+                                                                                      THEN /\ pc' = [pc EXCEPT ![self] = "sus_signal"]
                                                                                            /\ UNCHANGED << gwaker, 
                                                                                                            rv, 
                                                                                                            stack, 
                                                                                                            jq, 
                                                                                                            jj, 
                                                                                                            jwk >>
-                                                                                      ELSE /\ gwaker' = [gwaker EXCEPT ![OpTab[jj[self]].g] = jwk[self]]
-                                                                                           /\ rv' = [rv EXCEPT ![self] = 5]
-                                                                                           /\ pc' = [pc EXCEPT ![self] = Head(stack[self]).pc]
-                                                                                           /\ jq' = [jq EXCEPT ![self] = Head(stack[self]).jq]
-                                                                                           /\ jj' = [jj EXCEPT ![self] = Head(stack[self]).jj]
-                                                                                           /\ jwk' = [jwk EXCEPT ![self] = Head(stack[self]).jwk]
-                                                                                           /\ stack' = [stack EXCEPT ![self] = Tail(stack[self])]
+                                                                                      ELSE /\ IF OpTab[jj[self]].g \in gfired
+                                                                                                 THEN /\ pc' = [pc EXCEPT ![self] = "sus_inner"]
+                                                                                                      /\ UNCHANGED << gwaker, 
+                                                                                                                      rv, 
+                                                                                                                      stack, 
+                                                                                                                      jq, 
+                                                                                                                      jj, 
+                                                                                                                      jwk >>
+                                                                                                 ELSE /\ gwaker' = [gwaker EXCEPT ![OpTab[jj[self]].g] = jwk[self]]
+                                                                                                      /\ rv' = [rv EXCEPT ![self] = 5]
+                                                                                                      /\ pc' = [pc EXCEPT ![self] = Head(stack[self]).pc]
+                                                                                                      /\ jq' = [jq EXCEPT ![self] = Head(stack[self]).jq]
+                                                                                                      /\ jj' = [jj EXCEPT ![self] = Head(stack[self]).jj]
+                                                                                                      /\ jwk' = [jwk EXCEPT ![self] = Head(stack[self]).jwk]
+                                                                                                      /\ stack' = [stack EXCEPT ![self] = Tail(stack[self])]
+                                                                                /\ UNCHANGED << slotSt, 
+                                                                                                qrSent, 
+                                                                                                parkTok, 
+                                                                                                ww >>
                                                           /\ UNCHANGED << sdres, 
                                                                           h >>
                                                /\ UNCHANGED << rsq, bown, bwk, 
@@ -1779,10 +2038,11 @@ z_rj(self) == /\ pc[self] = "z_rj"
                               inbox, chanOpen, pfin, thrHeld, maxThreads, 
                               jkind, jaw, fres, fwaker, gfired, gthreads, dwSt, 
                               dwW, dblTaken, dblW1, dblW2, nextDW, ready, 
-                              cwait, cnotif, cvHeld, jpanic, parkTok, rwb, 
-                              rneed, dsl, dead, sti, rq, sq, sj, ww, fj, dq, 
-                              dj, oq, oop, omode, oj, yq, yop, tq, top, af, wf, 
-                              wop, pf, pctx, pq, pj, pd, nq >>
+                              cwait, cnotif, cvHeld, jpanic, sfst, qrWaker, 
+                              dnState, dnWaker, rwb, rneed, dsl, dead, sti, rq, 
+                              sq, sj, fj, dq, dj, oq, oop, omode, oj, yq, yop, 
+                              tq, top, af, wf, wop, sf, sctx, xf, pf, pctx, pq, 
+                              pj, pd, nq >>
 
 z_rj_ret(self) == /\ pc[self] = "z_rj_ret"
                   /\ pc' = [pc EXCEPT ![self] = Head(stack[self]).pc]
@@ -1796,11 +2056,41 @@ z_rj_ret(self) == /\ pc[self] = "z_rj_ret"
                                   jkind, jaw, fres, fwaker, gfired, gwaker, 
                                   gthreads, dwSt, dwW, dblTaken, dblW1, dblW2, 
                                   nextDW, ready, cwait, cnotif, cvHeld, sdres, 
-                                  jpanic, parkTok, rv, rwb, rneed, dsl, h, 
-                                  dead, sti, rq, sq, sj, ww, rsq, bown, bwk, 
-                                  bi, bcur, bw, fj, dq, dj, oq, oop, omode, oj, 
-                                  yq, yop, tq, top, af, wf, wop, pf, pctx, pq, 
-                                  pj, pd, nq >>
+                                  jpanic, sfst, slotSt, qrSent, qrWaker, 
+                                  dnState, dnWaker, parkTok, rv, rwb, rneed, 
+                                  dsl, h, dead, sti, rq, sq, sj, ww, rsq, bown, 
+                                  bwk, bi, bcur, bw, fj, dq, dj, oq, oop, 
+                                  omode, oj, yq, yop, tq, top, af, wf, wop, sf, 
+                                  sctx, xf, pf, pctx, pq, pj, pd, nq >>
+
+z_slot2(self) == /\ pc[self] = "z_slot2"
+                 /\ IF dnState[jj[self]] # "open"
+                       THEN /\ rv' = [rv EXCEPT ![self] = 0]
+                            /\ pc' = [pc EXCEPT ![self] = Head(stack[self]).pc]
+                            /\ jq' = [jq EXCEPT ![self] = Head(stack[self]).jq]
+                            /\ jj' = [jj EXCEPT ![self] = Head(stack[self]).jj]
+                            /\ jwk' = [jwk EXCEPT ![self] = Head(stack[self]).jwk]
+                            /\ stack' = [stack EXCEPT ![self] = Tail(stack[self])]
+                            /\ UNCHANGED dnWaker
+                       ELSE /\ dnWaker' = [dnWaker EXCEPT ![jj[self]] = jwk[self]]
+                            /\ rv' = [rv EXCEPT ![self] = 5]
+                            /\ pc' = [pc EXCEPT ![self] = Head(stack[self]).pc]
+                            /\ jq' = [jq EXCEPT ![self] = Head(stack[self]).jq]
+                            /\ jj' = [jj EXCEPT ![self] = Head(stack[self]).jj]
+                            /\ jwk' = [jwk EXCEPT ![self] = Head(stack[self]).jwk]
+                            /\ stack' = [stack EXCEPT ![self] = Tail(stack[self])]
+                 /\ UNCHANGED << qstate, qpoll, jobs, wakeBlocked, schedule, 
+                                 pthreads, nspawned, palive, busy, busyLocked, 
+                                 inbox, chanOpen, pfin, thrHeld, maxThreads, 
+                                 jkind, jaw, fres, fwaker, gfired, gwaker, 
+                                 gthreads, dwSt, dwW, dblTaken, dblW1, dblW2, 
+                                 nextDW, ready, cwait, cnotif, cvHeld, sdres, 
+                                 jpanic, sfst, slotSt, qrSent, qrWaker, 
+                                 dnState, parkTok, rwb, rneed, dsl, h, dead, 
+                                 sti, rq, sq, sj, ww, rsq, bown, bwk, bi, bcur, 
+                                 bw, fj, dq, dj, oq, oop, omode, oj, yq, yop, 
+                                 tq, top, af, wf, wop, sf, sctx, xf, pf, pctx, 
+                                 pq, pj, pd, nq >>
 
 sus_signal(self) == /\ pc[self] = "sus_signal"
                     /\ LET w == fwaker[jj[self]] IN
@@ -1823,11 +2113,13 @@ sus_signal(self) == /\ pc[self] = "sus_signal"
                                     maxThreads, jkind, jaw, gfired, gwaker, 
                                     gthreads, dwSt, dwW, dblTaken, dblW1, 
                                     dblW2, nextDW, ready, cwait, cnotif, 
-                                    cvHeld, sdres, jpanic, rv, rwb, rneed, dsl, 
-                                    h, dead, sti, rq, sq, sj, rsq, bown, bwk, 
-                                    bi, bcur, bw, jq, jj, jwk, fj, dq, dj, oq, 
-                                    oop, omode, oj, yq, yop, tq, top, af, wf, 
-                                    wop, pf, pctx, pq, pj, pd, nq >>
+                                    cvHeld, sdres, jpanic, sfst, slotSt, 
+                                    qrSent, qrWaker, dnState, dnWaker, rv, rwb, 
+                                    rneed, dsl, h, dead, sti, rq, sq, sj, rsq, 
+                                    bown, bwk, bi, bcur, bw, jq, jj, jwk, fj, 
+                                    dq, dj, oq, oop, omode, oj, yq, yop, tq, 
+                                    top, af, wf, wop, sf, sctx, xf, pf, pctx, 
+                                    pq, pj, pd, nq >>
 
 sus_sigdrop(self) == /\ pc[self] = "sus_sigdrop"
                      /\ jaw' = [jaw EXCEPT ![jj[self]] = 1]
@@ -1847,11 +2139,13 @@ sus_sigdrop(self) == /\ pc[self] = "sus_sigdrop"
                                      thrHeld, maxThreads, jkind, fres, fwaker, 
                                      gfired, gthreads, dwSt, dwW, dblTaken, 
                                      dblW1, dblW2, nextDW, ready, cwait, 
-                                     cnotif, cvHeld, sdres, jpanic, parkTok, 
-                                     rwb, rneed, dsl, h, dead, sti, rq, sq, sj, 
-                                     ww, rsq, bown, bwk, bi, bcur, bw, fj, dq, 
-                                     dj, oq, oop, omode, oj, yq, yop, tq, top, 
-                                     af, wf, wop, pf, pctx, pq, pj, pd, nq >>
+                                     cnotif, cvHeld, sdres, jpanic, sfst, 
+                                     slotSt, qrSent, qrWaker, dnState, dnWaker, 
+                                     parkTok, rwb, rneed, dsl, h, dead, sti, 
+                                     rq, sq, sj, ww, rsq, bown, bwk, bi, bcur, 
+                                     bw, fj, dq, dj, oq, oop, omode, oj, yq, 
+                                     yop, tq, top, af, wf, wop, sf, sctx, xf, 
+                                     pf, pctx, pq, pj, pd, nq >>
 
 sus_inner(self) == /\ pc[self] = "sus_inner"
                    /\ TRUE
@@ -1862,12 +2156,13 @@ sus_inner(self) == /\ pc[self] = "sus_inner"
                                    maxThreads, jkind, jaw, fres, fwaker, 
                                    gfired, gwaker, gthreads, dwSt, dwW, 
                                    dblTaken, dblW1, dblW2, nextDW, ready, 
-                                   cwait, cnotif, cvHeld, sdres, jpanic, 
+                                   cwait, cnotif, cvHeld, sdres, jpanic, sfst, 
+                                   slotSt, qrSent, qrWaker, dnState, dnWaker, 
                                    parkTok, rv, rwb, rneed, dsl, h, stack, 
                                    dead, sti, rq, sq, sj, ww, rsq, bown, bwk, 
                                    bi, bcur, bw, jq, jj, jwk, fj, dq, dj, oq, 
                                    oop, omode, oj, yq, yop, tq, top, af, wf, 
-                                   wop, pf, pctx, pq, pj, pd, nq >>
+                                   wop, sf, sctx, xf, pf, pctx, pq, pj, pd, nq >>
 
 sus_innerdrop(self) == /\ pc[self] = "sus_innerdrop"
                        /\ rv' = [rv EXCEPT ![self] = 0]
@@ -1883,11 +2178,13 @@ sus_innerdrop(self) == /\ pc[self] = "sus_innerdrop"
                                        fwaker, gfired, gwaker, gthreads, dwSt, 
                                        dwW, dblTaken, dblW1, dblW2, nextDW, 
                                        ready, cwait, cnotif, cvHeld, sdres, 
-                                       jpanic, parkTok, rwb, rneed, dsl, h, 
-                                       dead, sti, rq, sq, sj, ww, rsq, bown, 
-                                       bwk, bi, bcur, bw, fj, dq, dj, oq, oop, 
-                                       omode, oj, yq, yop, tq, top, af, wf, 
-                                       wop, pf, pctx, pq, pj, pd, nq >>
+                                       jpanic, sfst, slotSt, qrSent, qrWaker, 
+                                       dnState, dnWaker, parkTok, rwb, rneed, 
+                                       dsl, h, dead, sti, rq, sq, sj, ww, rsq, 
+                                       bown, bwk, bi, bcur, bw, fj, dq, dj, oq, 
+                                       oop, omode, oj, yq, yop, tq, top, af, 
+                                       wf, wop, sf, sctx, xf, pf, pctx, pq, pj, 
+                                       pd, nq >>
 
 ws_take(self) == /\ pc[self] = "ws_take"
                  /\ IF fres[OpTab[jj[self]].f] = "some"
@@ -1912,18 +2209,21 @@ ws_take(self) == /\ pc[self] = "ws_take"
                                  inbox, chanOpen, pfin, thrHeld, maxThreads, 
                                  jkind, jaw, fwaker, gfired, gwaker, gthreads, 
                                  dwSt, dwW, dblTaken, dblW1, dblW2, nextDW, 
-                                 ready, cwait, cnotif, cvHeld, jpanic, parkTok, 
-                                 rwb, rneed, dsl, h, dead, sti, rq, sq, sj, ww, 
-                                 rsq, bown, bwk, bi, bcur, bw, fj, dq, dj, oq, 
-                                 oop, omode, oj, yq, yop, tq, top, af, wf, wop, 
-                                 pf, pctx, pq, pj, pd, nq >>
+                                 ready, cwait, cnotif, cvHeld, jpanic, sfst, 
+                                 slotSt, qrSent, qrWaker, dnState, dnWaker, 
+                                 parkTok, rwb, rneed, dsl, h, dead, sti, rq, 
+                                 sq, sj, ww, rsq, bown, bwk, bi, bcur, bw, fj, 
+                                 dq, dj, oq, oop, omode, oj, yq, yop, tq, top, 
+                                 af, wf, wop, sf, sctx, xf, pf, pctx, pq, pj, 
+                                 pd, nq >>
 
-RunJob(self) == z_rj(self) \/ z_rj_ret(self) \/ sus_signal(self)
-                   \/ sus_sigdrop(self) \/ sus_inner(self)
-                   \/ sus_innerdrop(self) \/ ws_take(self)
+RunJob(self) == z_rj(self) \/ z_rj_ret(self) \/ z_slot2(self)
+                   \/ sus_signal(self) \/ sus_sigdrop(self)
+                   \/ sus_inner(self) \/ sus_innerdrop(self)
+                   \/ ws_take(self)
 
 fj_lock(self) == /\ pc[self] = "fj_lock"
-                 /\ IF jkind[fj[self]] = "fut"
+                 /\ IF jkind[fj[self]] \in {"fut", "slot"}
                        THEN /\ LET w == fwaker[fj[self]] IN
                                  /\ fres' = [fres EXCEPT ![fj[self]] = IF jpanic[fj[self]] THEN "cancelled" ELSE "some"]
                                  /\ fwaker' = [fwaker EXCEPT ![fj[self]] = NoW]
@@ -1950,11 +2250,12 @@ fj_lock(self) == /\ pc[self] = "fj_lock"
                                  inbox, chanOpen, pfin, thrHeld, maxThreads, 
                                  jkind, jaw, gfired, gwaker, gthreads, dwSt, 
                                  dwW, dblTaken, dblW1, dblW2, nextDW, cwait, 
-                                 cvHeld, sdres, jpanic, rv, rwb, rneed, dsl, h, 
-                                 dead, sti, rq, sq, sj, rsq, bown, bwk, bi, 
-                                 bcur, bw, jq, jj, jwk, dq, dj, oq, oop, omode, 
-                                 oj, yq, yop, tq, top, af, wf, wop, pf, pctx, 
-                                 pq, pj, pd, nq >>
+                                 cvHeld, sdres, jpanic, sfst, slotSt, qrSent, 
+                                 qrWaker, dnState, dnWaker, rv, rwb, rneed, 
+                                 dsl, h, dead, sti, rq, sq, sj, rsq, bown, bwk, 
+                                 bi, bcur, bw, jq, jj, jwk, dq, dj, oq, oop, 
+                                 omode, oj, yq, yop, tq, top, af, wf, wop, sf, 
+                                 sctx, xf, pf, pctx, pq, pj, pd, nq >>
 
 z_fj_chk(self) == /\ pc[self] = "z_fj_chk"
                   /\ IF jpanic[fj[self]]
@@ -1969,11 +2270,12 @@ z_fj_chk(self) == /\ pc[self] = "z_fj_chk"
                                   jkind, jaw, fres, fwaker, gfired, gwaker, 
                                   gthreads, dwSt, dwW, dblTaken, dblW1, dblW2, 
                                   nextDW, ready, cwait, cnotif, cvHeld, sdres, 
-                                  jpanic, parkTok, rv, rwb, rneed, dsl, h, 
-                                  dead, sti, rq, sq, sj, ww, rsq, bown, bwk, 
-                                  bi, bcur, bw, jq, jj, jwk, dq, dj, oq, oop, 
-                                  omode, oj, yq, yop, tq, top, af, wf, wop, pf, 
-                                  pctx, pq, pj, pd, nq >>
+                                  jpanic, sfst, slotSt, qrSent, qrWaker, 
+                                  dnState, dnWaker, parkTok, rv, rwb, rneed, 
+                                  dsl, h, dead, sti, rq, sq, sj, ww, rsq, bown, 
+                                  bwk, bi, bcur, bw, jq, jj, jwk, dq, dj, oq, 
+                                  oop, omode, oj, yq, yop, tq, top, af, wf, 
+                                  wop, sf, sctx, xf, pf, pctx, pq, pj, pd, nq >>
 
 fj_sigdrop(self) == /\ pc[self] = "fj_sigdrop"
                     /\ pc' = [pc EXCEPT ![self] = Head(stack[self]).pc]
@@ -1985,12 +2287,13 @@ fj_sigdrop(self) == /\ pc[self] = "fj_sigdrop"
                                     maxThreads, jkind, jaw, fres, fwaker, 
                                     gfired, gwaker, gthreads, dwSt, dwW, 
                                     dblTaken, dblW1, dblW2, nextDW, ready, 
-                                    cwait, cnotif, cvHeld, sdres, jpanic, 
+                                    cwait, cnotif, cvHeld, sdres, jpanic, sfst, 
+                                    slotSt, qrSent, qrWaker, dnState, dnWaker, 
                                     parkTok, rv, rwb, rneed, dsl, h, dead, sti, 
                                     rq, sq, sj, ww, rsq, bown, bwk, bi, bcur, 
                                     bw, jq, jj, jwk, dq, dj, oq, oop, omode, 
-                                    oj, yq, yop, tq, top, af, wf, wop, pf, 
-                                    pctx, pq, pj, pd, nq >>
+                                    oj, yq, yop, tq, top, af, wf, wop, sf, 
+                                    sctx, xf, pf, pctx, pq, pj, pd, nq >>
 
 FinishJob(self) == fj_lock(self) \/ z_fj_chk(self) \/ fj_sigdrop(self)
 
@@ -2016,10 +2319,12 @@ pd_deq(self) == /\ pc[self] = "pd_deq"
                                 jaw, fres, fwaker, gfired, gwaker, gthreads, 
                                 dwSt, dwW, dblTaken, dblW1, dblW2, nextDW, 
                                 ready, cwait, cnotif, cvHeld, sdres, jpanic, 
-                                parkTok, rv, rwb, rneed, dsl, h, dead, sti, rq, 
-                                sq, sj, ww, rsq, bown, bwk, bi, bcur, bw, fj, 
-                                dq, oq, oop, omode, oj, yq, yop, tq, top, af, 
-                                wf, wop, pf, pctx, pq, pj, pd, nq >>
+                                sfst, slotSt, qrSent, qrWaker, dnState, 
+                                dnWaker, parkTok, rv, rwb, rneed, dsl, h, dead, 
+                                sti, rq, sq, sj, ww, rsq, bown, bwk, bi, bcur, 
+                                bw, fj, dq, oq, oop, omode, oj, yq, yop, tq, 
+                                top, af, wf, wop, sf, sctx, xf, pf, pctx, pq, 
+                                pj, pd, nq >>
 
 z_pd_after(self) == /\ pc[self] = "z_pd_after"
                     /\ IF rv[self] = 5
@@ -2050,12 +2355,13 @@ z_pd_after(self) == /\ pc[self] = "z_pd_after"
                                     maxThreads, jkind, jaw, fres, fwaker, 
                                     gfired, gwaker, gthreads, dwSt, dwW, 
                                     dblTaken, dblW1, dblW2, nextDW, ready, 
-                                    cwait, cnotif, cvHeld, sdres, jpanic, 
+                                    cwait, cnotif, cvHeld, sdres, jpanic, sfst, 
+                                    slotSt, qrSent, qrWaker, dnState, dnWaker, 
                                     parkTok, rv, rwb, rneed, dsl, h, dead, sti, 
                                     rq, sq, sj, ww, rsq, bown, bwk, bi, bcur, 
                                     bw, jq, jj, jwk, dq, dj, oq, oop, omode, 
-                                    oj, yq, yop, tq, top, af, wf, wop, pf, 
-                                    pctx, pq, pj, pd, nq >>
+                                    oj, yq, yop, tq, top, af, wf, wop, sf, 
+                                    sctx, xf, pf, pctx, pq, pj, pd, nq >>
 
 pd_requeue(self) == /\ pc[self] = "pd_requeue"
                     /\ jobs' = [jobs EXCEPT ![dq[self]] = << dj[self] >> \o jobs[dq[self]]]
@@ -2066,12 +2372,14 @@ pd_requeue(self) == /\ pc[self] = "pd_requeue"
                                     maxThreads, jkind, jaw, fres, fwaker, 
                                     gfired, gwaker, gthreads, dwSt, dwW, 
                                     dblTaken, dblW1, dblW2, nextDW, ready, 
-                                    cwait, cnotif, cvHeld, sdres, jpanic, 
+                                    cwait, cnotif, cvHeld, sdres, jpanic, sfst, 
+                                    slotSt, qrSent, qrWaker, dnState, dnWaker, 
                                     parkTok, rv, rwb, rneed, dsl, h, stack, 
                                     dead, sti, rq, sq, sj, ww, rsq, bown, bwk, 
                                     bi, bcur, bw, jq, jj, jwk, fj, dq, dj, oq, 
                                     oop, omode, oj, yq, yop, tq, top, af, wf, 
-                                    wop, pf, pctx, pq, pj, pd, nq >>
+                                    wop, sf, sctx, xf, pf, pctx, pq, pj, pd, 
+                                    nq >>
 
 pd_park(self) == /\ pc[self] = "pd_park"
                  /\ IF qstate[dq[self]] = "Running"
@@ -2093,10 +2401,12 @@ pd_park(self) == /\ pc[self] = "pd_park"
                                  jaw, fres, fwaker, gfired, gwaker, gthreads, 
                                  dwSt, dwW, dblTaken, dblW1, dblW2, nextDW, 
                                  ready, cwait, cnotif, cvHeld, sdres, jpanic, 
-                                 parkTok, rwb, rneed, dsl, h, dead, sti, rq, 
-                                 sq, sj, ww, rsq, bown, bwk, bi, bcur, bw, jq, 
-                                 jj, jwk, fj, oq, oop, omode, oj, yq, yop, tq, 
-                                 top, af, wf, wop, pf, pctx, pq, pj, pd, nq >>
+                                 sfst, slotSt, qrSent, qrWaker, dnState, 
+                                 dnWaker, parkTok, rwb, rneed, dsl, h, dead, 
+                                 sti, rq, sq, sj, ww, rsq, bown, bwk, bi, bcur, 
+                                 bw, jq, jj, jwk, fj, oq, oop, omode, oj, yq, 
+                                 yop, tq, top, af, wf, wop, sf, sctx, xf, pf, 
+                                 pctx, pq, pj, pd, nq >>
 
 pd_end(self) == /\ pc[self] = "pd_end"
                 /\ IF jobs[dq[self]] = << >>
@@ -2124,10 +2434,12 @@ pd_end(self) == /\ pc[self] = "pd_end"
                                 jaw, fres, fwaker, gfired, gwaker, gthreads, 
                                 dwSt, dwW, dblTaken, dblW1, dblW2, nextDW, 
                                 ready, cwait, cnotif, cvHeld, sdres, jpanic, 
-                                parkTok, rwb, rneed, dsl, h, dead, sti, rq, sq, 
-                                sj, ww, rsq, bown, bwk, bi, bcur, bw, jq, jj, 
-                                jwk, fj, oq, oop, omode, oj, yq, yop, tq, top, 
-                                af, wf, wop, pf, pctx, pq, pj, pd, nq >>
+                                sfst, slotSt, qrSent, qrWaker, dnState, 
+                                dnWaker, parkTok, rwb, rneed, dsl, h, dead, 
+                                sti, rq, sq, sj, ww, rsq, bown, bwk, bi, bcur, 
+                                bw, jq, jj, jwk, fj, oq, oop, omode, oj, yq, 
+                                yop, tq, top, af, wf, wop, sf, sctx, xf, pf, 
+                                pctx, pq, pj, pd, nq >>
 
 pd_panic(self) == /\ pc[self] = "pd_panic"
                   /\ qstate' = [qstate EXCEPT ![dq[self]] = "Panicked"]
@@ -2142,10 +2454,12 @@ pd_panic(self) == /\ pc[self] = "pd_panic"
                                   jaw, fres, fwaker, gfired, gwaker, gthreads, 
                                   dwSt, dwW, dblTaken, dblW1, dblW2, nextDW, 
                                   ready, cwait, cnotif, cvHeld, sdres, jpanic, 
-                                  parkTok, rwb, rneed, dsl, h, dead, sti, rq, 
-                                  sq, sj, ww, rsq, bown, bwk, bi, bcur, bw, jq, 
-                                  jj, jwk, fj, oq, oop, omode, oj, yq, yop, tq, 
-                                  top, af, wf, wop, pf, pctx, pq, pj, pd, nq >>
+                                  sfst, slotSt, qrSent, qrWaker, dnState, 
+                                  dnWaker, parkTok, rwb, rneed, dsl, h, dead, 
+                                  sti, rq, sq, sj, ww, rsq, bown, bwk, bi, 
+                                  bcur, bw, jq, jj, jwk, fj, oq, oop, omode, 
+                                  oj, yq, yop, tq, top, af, wf, wop, sf, sctx, 
+                                  xf, pf, pctx, pq, pj, pd, nq >>
 
 PoolDrain(self) == pd_deq(self) \/ z_pd_after(self) \/ pd_requeue(self)
                       \/ pd_park(self) \/ pd_end(self) \/ pd_panic(self)
@@ -2183,10 +2497,11 @@ ro_deq(self) == /\ pc[self] = "ro_deq"
                                 jaw, fres, fwaker, gfired, gwaker, gthreads, 
                                 dwSt, dwW, dblTaken, dblW1, dblW2, nextDW, 
                                 ready, cwait, cnotif, cvHeld, sdres, jpanic, 
-                                parkTok, rwb, rneed, dsl, h, dead, sti, rq, sq, 
-                                sj, ww, rsq, bown, bwk, bi, bcur, bw, fj, dq, 
-                                dj, yq, yop, tq, top, af, wf, wop, pf, pctx, 
-                                pq, pj, pd, nq >>
+                                sfst, slotSt, qrSent, qrWaker, dnState, 
+                                dnWaker, parkTok, rwb, rneed, dsl, h, dead, 
+                                sti, rq, sq, sj, ww, rsq, bown, bwk, bi, bcur, 
+                                bw, fj, dq, dj, yq, yop, tq, top, af, wf, wop, 
+                                sf, sctx, xf, pf, pctx, pq, pj, pd, nq >>
 
 z_ro_after(self) == /\ pc[self] = "z_ro_after"
                     /\ IF rv[self] = 5
@@ -2217,12 +2532,13 @@ z_ro_after(self) == /\ pc[self] = "z_ro_after"
                                     maxThreads, jkind, jaw, fres, fwaker, 
                                     gfired, gwaker, gthreads, dwSt, dwW, 
                                     dblTaken, dblW1, dblW2, nextDW, ready, 
-                                    cwait, cnotif, cvHeld, sdres, jpanic, 
+                                    cwait, cnotif, cvHeld, sdres, jpanic, sfst, 
+                                    slotSt, qrSent, qrWaker, dnState, dnWaker, 
                                     parkTok, rv, rwb, rneed, dsl, h, dead, sti, 
                                     rq, sq, sj, ww, rsq, bown, bwk, bi, bcur, 
                                     bw, jq, jj, jwk, dq, dj, oq, oop, omode, 
-                                    oj, yq, yop, tq, top, af, wf, wop, pf, 
-                                    pctx, pq, pj, pd, nq >>
+                                    oj, yq, yop, tq, top, af, wf, wop, sf, 
+                                    sctx, xf, pf, pctx, pq, pj, pd, nq >>
 
 z_ro_done(self) == /\ pc[self] = "z_ro_done"
                    /\ IF omode[self] = "sd" /\ ~sdres[oop[self]]
@@ -2241,11 +2557,13 @@ z_ro_done(self) == /\ pc[self] = "z_ro_done"
                                    maxThreads, jkind, jaw, fres, fwaker, 
                                    gfired, gwaker, gthreads, dwSt, dwW, 
                                    dblTaken, dblW1, dblW2, nextDW, ready, 
-                                   cwait, cnotif, cvHeld, sdres, jpanic, 
+                                   cwait, cnotif, cvHeld, sdres, jpanic, sfst, 
+                                   slotSt, qrSent, qrWaker, dnState, dnWaker, 
                                    parkTok, rwb, rneed, dsl, h, dead, sti, rq, 
                                    sq, sj, ww, rsq, bown, bwk, bi, bcur, bw, 
                                    jq, jj, jwk, fj, dq, dj, yq, yop, tq, top, 
-                                   af, wf, wop, pf, pctx, pq, pj, pd, nq >>
+                                   af, wf, wop, sf, sctx, xf, pf, pctx, pq, pj, 
+                                   pd, nq >>
 
 z_ro_panic(self) == /\ pc[self] = "z_ro_panic"
                     /\ rv' = [rv EXCEPT ![self] = 9]
@@ -2261,11 +2579,13 @@ z_ro_panic(self) == /\ pc[self] = "z_ro_panic"
                                     maxThreads, jkind, jaw, fres, fwaker, 
                                     gfired, gwaker, gthreads, dwSt, dwW, 
                                     dblTaken, dblW1, dblW2, nextDW, ready, 
-                                    cwait, cnotif, cvHeld, sdres, jpanic, 
+                                    cwait, cnotif, cvHeld, sdres, jpanic, sfst, 
+                                    slotSt, qrSent, qrWaker, dnState, dnWaker, 
                                     parkTok, rwb, rneed, dsl, h, dead, sti, rq, 
                                     sq, sj, ww, rsq, bown, bwk, bi, bcur, bw, 
                                     jq, jj, jwk, fj, dq, dj, yq, yop, tq, top, 
-                                    af, wf, wop, pf, pctx, pq, pj, pd, nq >>
+                                    af, wf, wop, sf, sctx, xf, pf, pctx, pq, 
+                                    pj, pd, nq >>
 
 ro_park(self) == /\ pc[self] = "ro_park"
                  /\ IF qstate[oq[self]] = "AwokenWhileRunning"
@@ -2281,7 +2601,7 @@ ro_park(self) == /\ pc[self] = "ro_park"
                                                                     \o stack[self]]
                             /\ pc' = [pc EXCEPT ![self] = "z_rj"]
                        ELSE /\ Assert(qstate[oq[self]] = "Running", 
-                                      "Failure of assertion at line 420, column 5.")
+                                      "Failure of assertion at line 443, column 5.")
                             /\ qstate' = [qstate EXCEPT ![oq[self]] = "WaitingForUnpark"]
                             /\ pc' = [pc EXCEPT ![self] = "ro_check"]
                             /\ UNCHANGED << stack, jq, jj, jwk >>
@@ -2291,10 +2611,12 @@ ro_park(self) == /\ pc[self] = "ro_park"
                                  jaw, fres, fwaker, gfired, gwaker, gthreads, 
                                  dwSt, dwW, dblTaken, dblW1, dblW2, nextDW, 
                                  ready, cwait, cnotif, cvHeld, sdres, jpanic, 
-                                 parkTok, rv, rwb, rneed, dsl, h, dead, sti, 
-                                 rq, sq, sj, ww, rsq, bown, bwk, bi, bcur, bw, 
-                                 fj, dq, dj, oq, oop, omode, oj, yq, yop, tq, 
-                                 top, af, wf, wop, pf, pctx, pq, pj, pd, nq >>
+                                 sfst, slotSt, qrSent, qrWaker, dnState, 
+                                 dnWaker, parkTok, rv, rwb, rneed, dsl, h, 
+                                 dead, sti, rq, sq, sj, ww, rsq, bown, bwk, bi, 
+                                 bcur, bw, fj, dq, dj, oq, oop, omode, oj, yq, 
+                                 yop, tq, top, af, wf, wop, sf, sctx, xf, pf, 
+                                 pctx, pq, pj, pd, nq >>
 
 ro_check(self) == /\ pc[self] = "ro_check"
                   /\ IF qstate[oq[self]] \in {"Running", "AwokenWhileRunning"}
@@ -2309,7 +2631,7 @@ ro_check(self) == /\ pc[self] = "ro_check"
                                                                      \o stack[self]]
                              /\ pc' = [pc EXCEPT ![self] = "z_rj"]
                         ELSE /\ Assert(qstate[oq[self]] = "WaitingForUnpark", 
-                                       "Failure of assertion at line 427, column 12.")
+                                       "Failure of assertion at line 450, column 12.")
                              /\ pc' = [pc EXCEPT ![self] = "ro_parked"]
                              /\ UNCHANGED << stack, jq, jj, jwk >>
                   /\ UNCHANGED << qstate, qpoll, jobs, wakeBlocked, schedule, 
@@ -2318,11 +2640,12 @@ ro_check(self) == /\ pc[self] = "ro_check"
                                   jkind, jaw, fres, fwaker, gfired, gwaker, 
                                   gthreads, dwSt, dwW, dblTaken, dblW1, dblW2, 
                                   nextDW, ready, cwait, cnotif, cvHeld, sdres, 
-                                  jpanic, parkTok, rv, rwb, rneed, dsl, h, 
-                                  dead, sti, rq, sq, sj, ww, rsq, bown, bwk, 
-                                  bi, bcur, bw, fj, dq, dj, oq, oop, omode, oj, 
-                                  yq, yop, tq, top, af, wf, wop, pf, pctx, pq, 
-                                  pj, pd, nq >>
+                                  jpanic, sfst, slotSt, qrSent, qrWaker, 
+                                  dnState, dnWaker, parkTok, rv, rwb, rneed, 
+                                  dsl, h, dead, sti, rq, sq, sj, ww, rsq, bown, 
+                                  bwk, bi, bcur, bw, fj, dq, dj, oq, oop, 
+                                  omode, oj, yq, yop, tq, top, af, wf, wop, sf, 
+                                  sctx, xf, pf, pctx, pq, pj, pd, nq >>
 
 ro_parked(self) == /\ pc[self] = "ro_parked"
                    /\ parkTok[self]
@@ -2335,12 +2658,13 @@ ro_parked(self) == /\ pc[self] = "ro_parked"
                                    maxThreads, jkind, jaw, fres, fwaker, 
                                    gfired, gwaker, gthreads, dwSt, dwW, 
                                    dblTaken, dblW1, dblW2, nextDW, ready, 
-                                   cwait, cnotif, cvHeld, sdres, jpanic, rv, 
-                                   rwb, rneed, dsl, stack, dead, sti, rq, sq, 
-                                   sj, ww, rsq, bown, bwk, bi, bcur, bw, jq, 
-                                   jj, jwk, fj, dq, dj, oq, oop, omode, oj, yq, 
-                                   yop, tq, top, af, wf, wop, pf, pctx, pq, pj, 
-                                   pd, nq >>
+                                   cwait, cnotif, cvHeld, sdres, jpanic, sfst, 
+                                   slotSt, qrSent, qrWaker, dnState, dnWaker, 
+                                   rv, rwb, rneed, dsl, stack, dead, sti, rq, 
+                                   sq, sj, ww, rsq, bown, bwk, bi, bcur, bw, 
+                                   jq, jj, jwk, fj, dq, dj, oq, oop, omode, oj, 
+                                   yq, yop, tq, top, af, wf, wop, sf, sctx, xf, 
+                                   pf, pctx, pq, pj, pd, nq >>
 
 RunOne(self) == ro_deq(self) \/ z_ro_after(self) \/ z_ro_done(self)
                    \/ z_ro_panic(self) \/ ro_park(self) \/ ro_check(self)
@@ -2391,11 +2715,12 @@ sy_decide(self) == /\ pc[self] = "sy_decide"
                                    maxThreads, jaw, fres, fwaker, gfired, 
                                    gwaker, gthreads, dwSt, dwW, dblTaken, 
                                    dblW1, dblW2, nextDW, ready, cwait, cnotif, 
-                                   cvHeld, sdres, jpanic, parkTok, rwb, rneed, 
-                                   dsl, h, dead, sti, rq, sq, sj, ww, rsq, 
-                                   bown, bwk, bi, bcur, bw, fj, dq, dj, oq, 
-                                   oop, omode, oj, tq, top, af, wf, wop, pf, 
-                                   pctx, pq, pj, pd, nq >>
+                                   cvHeld, sdres, jpanic, sfst, slotSt, qrSent, 
+                                   qrWaker, dnState, dnWaker, parkTok, rwb, 
+                                   rneed, dsl, h, dead, sti, rq, sq, sj, ww, 
+                                   rsq, bown, bwk, bi, bcur, bw, fj, dq, dj, 
+                                   oq, oop, omode, oj, tq, top, af, wf, wop, 
+                                   sf, sctx, xf, pf, pctx, pq, pj, pd, nq >>
 
 z_si_chk(self) == /\ pc[self] = "z_si_chk"
                   /\ IF rv[self] = 9
@@ -2407,11 +2732,13 @@ z_si_chk(self) == /\ pc[self] = "z_si_chk"
                                   jkind, jaw, fres, fwaker, gfired, gwaker, 
                                   gthreads, dwSt, dwW, dblTaken, dblW1, dblW2, 
                                   nextDW, ready, cwait, cnotif, cvHeld, sdres, 
-                                  jpanic, parkTok, rv, rwb, rneed, dsl, h, 
-                                  stack, dead, sti, rq, sq, sj, ww, rsq, bown, 
-                                  bwk, bi, bcur, bw, jq, jj, jwk, fj, dq, dj, 
-                                  oq, oop, omode, oj, yq, yop, tq, top, af, wf, 
-                                  wop, pf, pctx, pq, pj, pd, nq >>
+                                  jpanic, sfst, slotSt, qrSent, qrWaker, 
+                                  dnState, dnWaker, parkTok, rv, rwb, rneed, 
+                                  dsl, h, stack, dead, sti, rq, sq, sj, ww, 
+                                  rsq, bown, bwk, bi, bcur, bw, jq, jj, jwk, 
+                                  fj, dq, dj, oq, oop, omode, oj, yq, yop, tq, 
+                                  top, af, wf, wop, sf, sctx, xf, pf, pctx, pq, 
+                                  pj, pd, nq >>
 
 si_idle(self) == /\ pc[self] = "si_idle"
                  /\ qstate' = [qstate EXCEPT ![yq[self]] = "Idle"]
@@ -2427,11 +2754,12 @@ si_idle(self) == /\ pc[self] = "si_idle"
                                  jaw, fres, fwaker, gfired, gwaker, gthreads, 
                                  dwSt, dwW, dblTaken, dblW1, dblW2, nextDW, 
                                  ready, cwait, cnotif, cvHeld, sdres, jpanic, 
-                                 parkTok, rv, rwb, rneed, dsl, h, dead, sti, 
-                                 sq, sj, ww, rsq, bown, bwk, bi, bcur, bw, jq, 
-                                 jj, jwk, fj, dq, dj, oq, oop, omode, oj, yq, 
-                                 yop, tq, top, af, wf, wop, pf, pctx, pq, pj, 
-                                 pd, nq >>
+                                 sfst, slotSt, qrSent, qrWaker, dnState, 
+                                 dnWaker, parkTok, rv, rwb, rneed, dsl, h, 
+                                 dead, sti, sq, sj, ww, rsq, bown, bwk, bi, 
+                                 bcur, bw, jq, jj, jwk, fj, dq, dj, oq, oop, 
+                                 omode, oj, yq, yop, tq, top, af, wf, wop, sf, 
+                                 sctx, xf, pf, pctx, pq, pj, pd, nq >>
 
 z_si_ret(self) == /\ pc[self] = "z_si_ret"
                   /\ rv' = [rv EXCEPT ![self] = 0]
@@ -2445,11 +2773,12 @@ z_si_ret(self) == /\ pc[self] = "z_si_ret"
                                   jkind, jaw, fres, fwaker, gfired, gwaker, 
                                   gthreads, dwSt, dwW, dblTaken, dblW1, dblW2, 
                                   nextDW, ready, cwait, cnotif, cvHeld, sdres, 
-                                  jpanic, parkTok, rwb, rneed, dsl, h, dead, 
-                                  sti, rq, sq, sj, ww, rsq, bown, bwk, bi, 
-                                  bcur, bw, jq, jj, jwk, fj, dq, dj, oq, oop, 
-                                  omode, oj, tq, top, af, wf, wop, pf, pctx, 
-                                  pq, pj, pd, nq >>
+                                  jpanic, sfst, slotSt, qrSent, qrWaker, 
+                                  dnState, dnWaker, parkTok, rwb, rneed, dsl, 
+                                  h, dead, sti, rq, sq, sj, ww, rsq, bown, bwk, 
+                                  bi, bcur, bw, jq, jj, jwk, fj, dq, dj, oq, 
+                                  oop, omode, oj, tq, top, af, wf, wop, sf, 
+                                  sctx, xf, pf, pctx, pq, pj, pd, nq >>
 
 sd_push(self) == /\ pc[self] = "sd_push"
                  /\ jkind' = [jkind EXCEPT ![yop[self]] = "syncdrain"]
@@ -2472,10 +2801,12 @@ sd_push(self) == /\ pc[self] = "sd_push"
                                  jaw, fres, fwaker, gfired, gwaker, gthreads, 
                                  dwSt, dwW, dblTaken, dblW1, dblW2, nextDW, 
                                  ready, cwait, cnotif, cvHeld, sdres, jpanic, 
-                                 parkTok, rv, rwb, rneed, dsl, h, dead, sti, 
-                                 rq, sq, sj, ww, rsq, bown, bwk, bi, bcur, bw, 
-                                 jq, jj, jwk, fj, dq, dj, yq, yop, tq, top, af, 
-                                 wf, wop, pf, pctx, pq, pj, pd, nq >>
+                                 sfst, slotSt, qrSent, qrWaker, dnState, 
+                                 dnWaker, parkTok, rv, rwb, rneed, dsl, h, 
+                                 dead, sti, rq, sq, sj, ww, rsq, bown, bwk, bi, 
+                                 bcur, bw, jq, jj, jwk, fj, dq, dj, yq, yop, 
+                                 tq, top, af, wf, wop, sf, sctx, xf, pf, pctx, 
+                                 pq, pj, pd, nq >>
 
 z_sd_chk(self) == /\ pc[self] = "z_sd_chk"
                   /\ IF rv[self] = 9
@@ -2487,11 +2818,13 @@ z_sd_chk(self) == /\ pc[self] = "z_sd_chk"
                                   jkind, jaw, fres, fwaker, gfired, gwaker, 
                                   gthreads, dwSt, dwW, dblTaken, dblW1, dblW2, 
                                   nextDW, ready, cwait, cnotif, cvHeld, sdres, 
-                                  jpanic, parkTok, rv, rwb, rneed, dsl, h, 
-                                  stack, dead, sti, rq, sq, sj, ww, rsq, bown, 
-                                  bwk, bi, bcur, bw, jq, jj, jwk, fj, dq, dj, 
-                                  oq, oop, omode, oj, yq, yop, tq, top, af, wf, 
-                                  wop, pf, pctx, pq, pj, pd, nq >>
+                                  jpanic, sfst, slotSt, qrSent, qrWaker, 
+                                  dnState, dnWaker, parkTok, rv, rwb, rneed, 
+                                  dsl, h, stack, dead, sti, rq, sq, sj, ww, 
+                                  rsq, bown, bwk, bi, bcur, bw, jq, jj, jwk, 
+                                  fj, dq, dj, oq, oop, omode, oj, yq, yop, tq, 
+                                  top, af, wf, wop, sf, sctx, xf, pf, pctx, pq, 
+                                  pj, pd, nq >>
 
 sd_idle(self) == /\ pc[self] = "sd_idle"
                  /\ qstate' = [qstate EXCEPT ![yq[self]] = "Idle"]
@@ -2507,11 +2840,12 @@ sd_idle(self) == /\ pc[self] = "sd_idle"
                                  jaw, fres, fwaker, gfired, gwaker, gthreads, 
                                  dwSt, dwW, dblTaken, dblW1, dblW2, nextDW, 
                                  ready, cwait, cnotif, cvHeld, sdres, jpanic, 
-                                 parkTok, rv, rwb, rneed, dsl, h, dead, sti, 
-                                 sq, sj, ww, rsq, bown, bwk, bi, bcur, bw, jq, 
-                                 jj, jwk, fj, dq, dj, oq, oop, omode, oj, yq, 
-                                 yop, tq, top, af, wf, wop, pf, pctx, pq, pj, 
-                                 pd, nq >>
+                                 sfst, slotSt, qrSent, qrWaker, dnState, 
+                                 dnWaker, parkTok, rv, rwb, rneed, dsl, h, 
+                                 dead, sti, sq, sj, ww, rsq, bown, bwk, bi, 
+                                 bcur, bw, jq, jj, jwk, fj, dq, dj, oq, oop, 
+                                 omode, oj, yq, yop, tq, top, af, wf, wop, sf, 
+                                 sctx, xf, pf, pctx, pq, pj, pd, nq >>
 
 sb_reg(self) == /\ pc[self] = "sb_reg"
                 /\ wakeBlocked' = [wakeBlocked EXCEPT ![yq[self]] = Append(wakeBlocked[yq[self]], yop[self])]
@@ -2522,12 +2856,13 @@ sb_reg(self) == /\ pc[self] = "sb_reg"
                                 chanOpen, pfin, thrHeld, maxThreads, jkind, 
                                 jaw, fres, fwaker, gfired, gwaker, gthreads, 
                                 dwSt, dwW, dblTaken, dblW1, dblW2, nextDW, 
-                                ready, cwait, cnotif, sdres, jpanic, parkTok, 
-                                rv, rwb, rneed, dsl, h, stack, dead, sti, rq, 
-                                sq, sj, ww, rsq, bown, bwk, bi, bcur, bw, jq, 
-                                jj, jwk, fj, dq, dj, oq, oop, omode, oj, yq, 
-                                yop, tq, top, af, wf, wop, pf, pctx, pq, pj, 
-                                pd, nq >>
+                                ready, cwait, cnotif, sdres, jpanic, sfst, 
+                                slotSt, qrSent, qrWaker, dnState, dnWaker, 
+                                parkTok, rv, rwb, rneed, dsl, h, stack, dead, 
+                                sti, rq, sq, sj, ww, rsq, bown, bwk, bi, bcur, 
+                                bw, jq, jj, jwk, fj, dq, dj, oq, oop, omode, 
+                                oj, yq, yop, tq, top, af, wf, wop, sf, sctx, 
+                                xf, pf, pctx, pq, pj, pd, nq >>
 
 sb_push(self) == /\ pc[self] = "sb_push"
                  /\ jkind' = [jkind EXCEPT ![yop[self]] = "syncbg"]
@@ -2547,11 +2882,12 @@ sb_push(self) == /\ pc[self] = "sb_push"
                                  jaw, fres, fwaker, gfired, gwaker, gthreads, 
                                  dwSt, dwW, dblTaken, dblW1, dblW2, nextDW, 
                                  ready, cwait, cnotif, cvHeld, sdres, jpanic, 
-                                 parkTok, rv, rwb, rneed, dsl, h, dead, sti, 
-                                 sq, sj, ww, rsq, bown, bwk, bi, bcur, bw, jq, 
-                                 jj, jwk, fj, dq, dj, oq, oop, omode, oj, yq, 
-                                 yop, tq, top, af, wf, wop, pf, pctx, pq, pj, 
-                                 pd, nq >>
+                                 sfst, slotSt, qrSent, qrWaker, dnState, 
+                                 dnWaker, parkTok, rv, rwb, rneed, dsl, h, 
+                                 dead, sti, sq, sj, ww, rsq, bown, bwk, bi, 
+                                 bcur, bw, jq, jj, jwk, fj, dq, dj, oq, oop, 
+                                 omode, oj, yq, yop, tq, top, af, wf, wop, sf, 
+                                 sctx, xf, pf, pctx, pq, pj, pd, nq >>
 
 sb_lock(self) == /\ pc[self] = "sb_lock"
                  /\ IF ready[yop[self]]
@@ -2571,11 +2907,13 @@ sb_lock(self) == /\ pc[self] = "sb_lock"
                                  pfin, thrHeld, maxThreads, jkind, jaw, fres, 
                                  fwaker, gfired, gwaker, gthreads, dwSt, dwW, 
                                  dblTaken, dblW1, dblW2, nextDW, ready, cvHeld, 
-                                 sdres, jpanic, parkTok, rv, rwb, rneed, dsl, 
-                                 h, stack, dead, sti, rq, sq, sj, ww, rsq, 
+                                 sdres, jpanic, sfst, slotSt, qrSent, qrWaker, 
+                                 dnState, dnWaker, parkTok, rv, rwb, rneed, 
+                                 dsl, h, stack, dead, sti, rq, sq, sj, ww, rsq, 
                                  bown, bwk, bi, bcur, bw, jq, jj, jwk, fj, dq, 
                                  dj, oq, oop, omode, oj, yq, yop, tq, top, af, 
-                                 wf, wop, pf, pctx, pq, pj, pd, nq >>
+                                 wf, wop, sf, sctx, xf, pf, pctx, pq, pj, pd, 
+                                 nq >>
 
 sb_claim(self) == /\ pc[self] = "sb_claim"
                   /\ IF qstate[yq[self]] \in {"Pending", "Idle"}
@@ -2589,12 +2927,13 @@ sb_claim(self) == /\ pc[self] = "sb_claim"
                                   pfin, thrHeld, maxThreads, jkind, jaw, fres, 
                                   fwaker, gfired, gwaker, gthreads, dwSt, dwW, 
                                   dblTaken, dblW1, dblW2, nextDW, ready, cwait, 
-                                  cnotif, cvHeld, sdres, jpanic, parkTok, rv, 
-                                  rwb, rneed, dsl, h, stack, dead, sti, rq, sq, 
-                                  sj, ww, rsq, bown, bwk, bi, bcur, bw, jq, jj, 
-                                  jwk, fj, dq, dj, oq, oop, omode, oj, yq, yop, 
-                                  tq, top, af, wf, wop, pf, pctx, pq, pj, pd, 
-                                  nq >>
+                                  cnotif, cvHeld, sdres, jpanic, sfst, slotSt, 
+                                  qrSent, qrWaker, dnState, dnWaker, parkTok, 
+                                  rv, rwb, rneed, dsl, h, stack, dead, sti, rq, 
+                                  sq, sj, ww, rsq, bown, bwk, bi, bcur, bw, jq, 
+                                  jj, jwk, fj, dq, dj, oq, oop, omode, oj, yq, 
+                                  yop, tq, top, af, wf, wop, sf, sctx, xf, pf, 
+                                  pctx, pq, pj, pd, nq >>
 
 sb_chk(self) == /\ pc[self] = "sb_chk"
                 /\ IF ~ready[yop[self]]
@@ -2618,10 +2957,12 @@ sb_chk(self) == /\ pc[self] = "sb_chk"
                                 jkind, jaw, fres, fwaker, gfired, gwaker, 
                                 gthreads, dwSt, dwW, dblTaken, dblW1, dblW2, 
                                 nextDW, ready, cwait, cnotif, cvHeld, sdres, 
-                                jpanic, parkTok, rv, rwb, rneed, dsl, h, dead, 
+                                jpanic, sfst, slotSt, qrSent, qrWaker, dnState, 
+                                dnWaker, parkTok, rv, rwb, rneed, dsl, h, dead, 
                                 sti, rq, sq, sj, ww, rsq, bown, bwk, bi, bcur, 
                                 bw, jq, jj, jwk, fj, dq, dj, yq, yop, tq, top, 
-                                af, wf, wop, pf, pctx, pq, pj, pd, nq >>
+                                af, wf, wop, sf, sctx, xf, pf, pctx, pq, pj, 
+                                pd, nq >>
 
 sb_idle(self) == /\ pc[self] = "sb_idle"
                  /\ qstate' = [qstate EXCEPT ![yq[self]] = "Idle"]
@@ -2637,11 +2978,12 @@ sb_idle(self) == /\ pc[self] = "sb_idle"
                                  jaw, fres, fwaker, gfired, gwaker, gthreads, 
                                  dwSt, dwW, dblTaken, dblW1, dblW2, nextDW, 
                                  ready, cwait, cnotif, cvHeld, sdres, jpanic, 
-                                 parkTok, rv, rwb, rneed, dsl, h, dead, sti, 
-                                 sq, sj, ww, rsq, bown, bwk, bi, bcur, bw, jq, 
-                                 jj, jwk, fj, dq, dj, oq, oop, omode, oj, yq, 
-                                 yop, tq, top, af, wf, wop, pf, pctx, pq, pj, 
-                                 pd, nq >>
+                                 sfst, slotSt, qrSent, qrWaker, dnState, 
+                                 dnWaker, parkTok, rv, rwb, rneed, dsl, h, 
+                                 dead, sti, sq, sj, ww, rsq, bown, bwk, bi, 
+                                 bcur, bw, jq, jj, jwk, fj, dq, dj, oq, oop, 
+                                 omode, oj, yq, yop, tq, top, af, wf, wop, sf, 
+                                 sctx, xf, pf, pctx, pq, pj, pd, nq >>
 
 z_sb_chk(self) == /\ pc[self] = "z_sb_chk"
                   /\ IF rv[self] = 9
@@ -2662,10 +3004,12 @@ z_sb_chk(self) == /\ pc[self] = "z_sb_chk"
                                   jkind, jaw, fres, fwaker, gfired, gwaker, 
                                   gthreads, dwSt, dwW, dblTaken, dblW1, dblW2, 
                                   nextDW, ready, cwait, cnotif, sdres, jpanic, 
-                                  parkTok, rwb, rneed, dsl, h, dead, sti, rq, 
-                                  sq, sj, ww, rsq, bown, bwk, bi, bcur, bw, jq, 
-                                  jj, jwk, fj, dq, dj, oq, oop, omode, oj, tq, 
-                                  top, af, wf, wop, pf, pctx, pq, pj, pd, nq >>
+                                  sfst, slotSt, qrSent, qrWaker, dnState, 
+                                  dnWaker, parkTok, rwb, rneed, dsl, h, dead, 
+                                  sti, rq, sq, sj, ww, rsq, bown, bwk, bi, 
+                                  bcur, bw, jq, jj, jwk, fj, dq, dj, oq, oop, 
+                                  omode, oj, tq, top, af, wf, wop, sf, sctx, 
+                                  xf, pf, pctx, pq, pj, pd, nq >>
 
 sb_wait(self) == /\ pc[self] = "sb_wait"
                  /\ cnotif[yop[self]]
@@ -2696,11 +3040,13 @@ sb_wait(self) == /\ pc[self] = "sb_wait"
                                  pfin, thrHeld, maxThreads, jkind, jaw, fres, 
                                  fwaker, gfired, gwaker, gthreads, dwSt, dwW, 
                                  dblTaken, dblW1, dblW2, nextDW, ready, cvHeld, 
-                                 sdres, jpanic, parkTok, rv, rwb, rneed, dsl, 
-                                 stack, dead, sti, rq, sq, sj, ww, rsq, bown, 
-                                 bwk, bi, bcur, bw, jq, jj, jwk, fj, dq, dj, 
-                                 oq, oop, omode, oj, yq, yop, tq, top, af, wf, 
-                                 wop, pf, pctx, pq, pj, pd, nq >>
+                                 sdres, jpanic, sfst, slotSt, qrSent, qrWaker, 
+                                 dnState, dnWaker, parkTok, rv, rwb, rneed, 
+                                 dsl, stack, dead, sti, rq, sq, sj, ww, rsq, 
+                                 bown, bwk, bi, bcur, bw, jq, jj, jwk, fj, dq, 
+                                 dj, oq, oop, omode, oj, yq, yop, tq, top, af, 
+                                 wf, wop, sf, sctx, xf, pf, pctx, pq, pj, pd, 
+                                 nq >>
 
 sb_fin(self) == /\ pc[self] = "sb_fin"
                 /\ cvHeld' = [cvHeld EXCEPT ![yop[self]] = FALSE]
@@ -2715,11 +3061,13 @@ sb_fin(self) == /\ pc[self] = "sb_fin"
                                 chanOpen, pfin, thrHeld, maxThreads, jkind, 
                                 jaw, fres, fwaker, gfired, gwaker, gthreads, 
                                 dwSt, dwW, dblTaken, dblW1, dblW2, nextDW, 
-                                ready, cwait, cnotif, sdres, jpanic, parkTok, 
-                                rwb, rneed, dsl, h, dead, sti, rq, sq, sj, ww, 
-                                rsq, bown, bwk, bi, bcur, bw, jq, jj, jwk, fj, 
-                                dq, dj, oq, oop, omode, oj, tq, top, af, wf, 
-                                wop, pf, pctx, pq, pj, pd, nq >>
+                                ready, cwait, cnotif, sdres, jpanic, sfst, 
+                                slotSt, qrSent, qrWaker, dnState, dnWaker, 
+                                parkTok, rwb, rneed, dsl, h, dead, sti, rq, sq, 
+                                sj, ww, rsq, bown, bwk, bi, bcur, bw, jq, jj, 
+                                jwk, fj, dq, dj, oq, oop, omode, oj, tq, top, 
+                                af, wf, wop, sf, sctx, xf, pf, pctx, pq, pj, 
+                                pd, nq >>
 
 sy_panic(self) == /\ pc[self] = "sy_panic"
                   /\ qstate' = [qstate EXCEPT ![yq[self]] = "Panicked"]
@@ -2734,10 +3082,12 @@ sy_panic(self) == /\ pc[self] = "sy_panic"
                                   jaw, fres, fwaker, gfired, gwaker, gthreads, 
                                   dwSt, dwW, dblTaken, dblW1, dblW2, nextDW, 
                                   ready, cwait, cnotif, cvHeld, sdres, jpanic, 
-                                  parkTok, rwb, rneed, dsl, h, dead, sti, rq, 
-                                  sq, sj, ww, rsq, bown, bwk, bi, bcur, bw, jq, 
-                                  jj, jwk, fj, dq, dj, oq, oop, omode, oj, tq, 
-                                  top, af, wf, wop, pf, pctx, pq, pj, pd, nq >>
+                                  sfst, slotSt, qrSent, qrWaker, dnState, 
+                                  dnWaker, parkTok, rwb, rneed, dsl, h, dead, 
+                                  sti, rq, sq, sj, ww, rsq, bown, bwk, bi, 
+                                  bcur, bw, jq, jj, jwk, fj, dq, dj, oq, oop, 
+                                  omode, oj, tq, top, af, wf, wop, sf, sctx, 
+                                  xf, pf, pctx, pq, pj, pd, nq >>
 
 Sync(self) == sy_decide(self) \/ z_si_chk(self) \/ si_idle(self)
                  \/ z_si_ret(self) \/ sd_push(self) \/ z_sd_chk(self)
@@ -2790,11 +3140,12 @@ ts_decide(self) == /\ pc[self] = "ts_decide"
                                    maxThreads, jaw, fres, fwaker, gfired, 
                                    gwaker, gthreads, dwSt, dwW, dblTaken, 
                                    dblW1, dblW2, nextDW, ready, cwait, cnotif, 
-                                   cvHeld, sdres, jpanic, parkTok, rwb, rneed, 
-                                   dsl, h, dead, sti, rq, sq, sj, ww, rsq, 
-                                   bown, bwk, bi, bcur, bw, fj, dq, dj, oq, 
-                                   oop, omode, oj, yq, yop, af, wf, wop, pf, 
-                                   pctx, pq, pj, pd, nq >>
+                                   cvHeld, sdres, jpanic, sfst, slotSt, qrSent, 
+                                   qrWaker, dnState, dnWaker, parkTok, rwb, 
+                                   rneed, dsl, h, dead, sti, rq, sq, sj, ww, 
+                                   rsq, bown, bwk, bi, bcur, bw, fj, dq, dj, 
+                                   oq, oop, omode, oj, yq, yop, af, wf, wop, 
+                                   sf, sctx, xf, pf, pctx, pq, pj, pd, nq >>
 
 z_ts_chk(self) == /\ pc[self] = "z_ts_chk"
                   /\ IF rv[self] = 9
@@ -2806,11 +3157,13 @@ z_ts_chk(self) == /\ pc[self] = "z_ts_chk"
                                   jkind, jaw, fres, fwaker, gfired, gwaker, 
                                   gthreads, dwSt, dwW, dblTaken, dblW1, dblW2, 
                                   nextDW, ready, cwait, cnotif, cvHeld, sdres, 
-                                  jpanic, parkTok, rv, rwb, rneed, dsl, h, 
-                                  stack, dead, sti, rq, sq, sj, ww, rsq, bown, 
-                                  bwk, bi, bcur, bw, jq, jj, jwk, fj, dq, dj, 
-                                  oq, oop, omode, oj, yq, yop, tq, top, af, wf, 
-                                  wop, pf, pctx, pq, pj, pd, nq >>
+                                  jpanic, sfst, slotSt, qrSent, qrWaker, 
+                                  dnState, dnWaker, parkTok, rv, rwb, rneed, 
+                                  dsl, h, stack, dead, sti, rq, sq, sj, ww, 
+                                  rsq, bown, bwk, bi, bcur, bw, jq, jj, jwk, 
+                                  fj, dq, dj, oq, oop, omode, oj, yq, yop, tq, 
+                                  top, af, wf, wop, sf, sctx, xf, pf, pctx, pq, 
+                                  pj, pd, nq >>
 
 ts_idle(self) == /\ pc[self] = "ts_idle"
                  /\ qstate' = [qstate EXCEPT ![tq[self]] = "Idle"]
@@ -2826,11 +3179,12 @@ ts_idle(self) == /\ pc[self] = "ts_idle"
                                  jaw, fres, fwaker, gfired, gwaker, gthreads, 
                                  dwSt, dwW, dblTaken, dblW1, dblW2, nextDW, 
                                  ready, cwait, cnotif, cvHeld, sdres, jpanic, 
-                                 parkTok, rv, rwb, rneed, dsl, h, dead, sti, 
-                                 sq, sj, ww, rsq, bown, bwk, bi, bcur, bw, jq, 
-                                 jj, jwk, fj, dq, dj, oq, oop, omode, oj, yq, 
-                                 yop, tq, top, af, wf, wop, pf, pctx, pq, pj, 
-                                 pd, nq >>
+                                 sfst, slotSt, qrSent, qrWaker, dnState, 
+                                 dnWaker, parkTok, rv, rwb, rneed, dsl, h, 
+                                 dead, sti, sq, sj, ww, rsq, bown, bwk, bi, 
+                                 bcur, bw, jq, jj, jwk, fj, dq, dj, oq, oop, 
+                                 omode, oj, yq, yop, tq, top, af, wf, wop, sf, 
+                                 sctx, xf, pf, pctx, pq, pj, pd, nq >>
 
 z_ts_ret(self) == /\ pc[self] = "z_ts_ret"
                   /\ rv' = [rv EXCEPT ![self] = 0]
@@ -2844,11 +3198,12 @@ z_ts_ret(self) == /\ pc[self] = "z_ts_ret"
                                   jkind, jaw, fres, fwaker, gfired, gwaker, 
                                   gthreads, dwSt, dwW, dblTaken, dblW1, dblW2, 
                                   nextDW, ready, cwait, cnotif, cvHeld, sdres, 
-                                  jpanic, parkTok, rwb, rneed, dsl, h, dead, 
-                                  sti, rq, sq, sj, ww, rsq, bown, bwk, bi, 
-                                  bcur, bw, jq, jj, jwk, fj, dq, dj, oq, oop, 
-                                  omode, oj, yq, yop, af, wf, wop, pf, pctx, 
-                                  pq, pj, pd, nq >>
+                                  jpanic, sfst, slotSt, qrSent, qrWaker, 
+                                  dnState, dnWaker, parkTok, rwb, rneed, dsl, 
+                                  h, dead, sti, rq, sq, sj, ww, rsq, bown, bwk, 
+                                  bi, bcur, bw, jq, jj, jwk, fj, dq, dj, oq, 
+                                  oop, omode, oj, yq, yop, af, wf, wop, sf, 
+                                  sctx, xf, pf, pctx, pq, pj, pd, nq >>
 
 ts_panic(self) == /\ pc[self] = "ts_panic"
                   /\ qstate' = [qstate EXCEPT ![tq[self]] = "Panicked"]
@@ -2863,40 +3218,54 @@ ts_panic(self) == /\ pc[self] = "ts_panic"
                                   jaw, fres, fwaker, gfired, gwaker, gthreads, 
                                   dwSt, dwW, dblTaken, dblW1, dblW2, nextDW, 
                                   ready, cwait, cnotif, cvHeld, sdres, jpanic, 
-                                  parkTok, rwb, rneed, dsl, h, dead, sti, rq, 
-                                  sq, sj, ww, rsq, bown, bwk, bi, bcur, bw, jq, 
-                                  jj, jwk, fj, dq, dj, oq, oop, omode, oj, yq, 
-                                  yop, af, wf, wop, pf, pctx, pq, pj, pd, nq >>
+                                  sfst, slotSt, qrSent, qrWaker, dnState, 
+                                  dnWaker, parkTok, rwb, rneed, dsl, h, dead, 
+                                  sti, rq, sq, sj, ww, rsq, bown, bwk, bi, 
+                                  bcur, bw, jq, jj, jwk, fj, dq, dj, oq, oop, 
+                                  omode, oj, yq, yop, af, wf, wop, sf, sctx, 
+                                  xf, pf, pctx, pq, pj, pd, nq >>
 
 TrySync(self) == ts_decide(self) \/ z_ts_chk(self) \/ ts_idle(self)
                     \/ z_ts_ret(self) \/ ts_panic(self)
 
 z_aw_poll(self) == /\ pc[self] = "z_aw_poll"
-                   /\ /\ pctx' = [pctx EXCEPT ![self] = TASK(self)]
-                      /\ pf' = [pf EXCEPT ![self] = af[self]]
-                      /\ stack' = [stack EXCEPT ![self] = << [ procedure |->  "PollFuture",
-                                                               pc        |->  "z_aw_after",
-                                                               pq        |->  pq[self],
-                                                               pj        |->  pj[self],
-                                                               pd        |->  pd[self],
-                                                               pf        |->  pf[self],
-                                                               pctx      |->  pctx[self] ] >>
-                                                           \o stack[self]]
-                   /\ pq' = [pq EXCEPT ![self] = 0]
-                   /\ pj' = [pj EXCEPT ![self] = 0]
-                   /\ pd' = [pd EXCEPT ![self] = 0]
-                   /\ pc' = [pc EXCEPT ![self] = "pf_decide"]
+                   /\ IF K(af[self]) = "fsync"
+                         THEN /\ /\ sctx' = [sctx EXCEPT ![self] = TASK(self)]
+                                 /\ sf' = [sf EXCEPT ![self] = af[self]]
+                                 /\ stack' = [stack EXCEPT ![self] = << [ procedure |->  "PollSync",
+                                                                          pc        |->  "z_aw_after",
+                                                                          sf        |->  sf[self],
+                                                                          sctx      |->  sctx[self] ] >>
+                                                                      \o stack[self]]
+                              /\ pc' = [pc EXCEPT ![self] = "z_ps"]
+                              /\ UNCHANGED << pf, pctx, pq, pj, pd >>
+                         ELSE /\ /\ pctx' = [pctx EXCEPT ![self] = TASK(self)]
+                                 /\ pf' = [pf EXCEPT ![self] = af[self]]
+                                 /\ stack' = [stack EXCEPT ![self] = << [ procedure |->  "PollFuture",
+                                                                          pc        |->  "z_aw_after",
+                                                                          pq        |->  pq[self],
+                                                                          pj        |->  pj[self],
+                                                                          pd        |->  pd[self],
+                                                                          pf        |->  pf[self],
+                                                                          pctx      |->  pctx[self] ] >>
+                                                                      \o stack[self]]
+                              /\ pq' = [pq EXCEPT ![self] = 0]
+                              /\ pj' = [pj EXCEPT ![self] = 0]
+                              /\ pd' = [pd EXCEPT ![self] = 0]
+                              /\ pc' = [pc EXCEPT ![self] = "pf_decide"]
+                              /\ UNCHANGED << sf, sctx >>
                    /\ UNCHANGED << qstate, qpoll, jobs, wakeBlocked, schedule, 
                                    pthreads, nspawned, palive, busy, 
                                    busyLocked, inbox, chanOpen, pfin, thrHeld, 
                                    maxThreads, jkind, jaw, fres, fwaker, 
                                    gfired, gwaker, gthreads, dwSt, dwW, 
                                    dblTaken, dblW1, dblW2, nextDW, ready, 
-                                   cwait, cnotif, cvHeld, sdres, jpanic, 
+                                   cwait, cnotif, cvHeld, sdres, jpanic, sfst, 
+                                   slotSt, qrSent, qrWaker, dnState, dnWaker, 
                                    parkTok, rv, rwb, rneed, dsl, h, dead, sti, 
                                    rq, sq, sj, ww, rsq, bown, bwk, bi, bcur, 
                                    bw, jq, jj, jwk, fj, dq, dj, oq, oop, omode, 
-                                   oj, yq, yop, tq, top, af, wf, wop, nq >>
+                                   oj, yq, yop, tq, top, af, wf, wop, xf, nq >>
 
 z_aw_after(self) == /\ pc[self] = "z_aw_after"
                     /\ IF rv[self] = 5
@@ -2915,12 +3284,13 @@ z_aw_after(self) == /\ pc[self] = "z_aw_after"
                                     maxThreads, jkind, jaw, fres, fwaker, 
                                     gfired, gwaker, gthreads, dwSt, dwW, 
                                     dblTaken, dblW1, dblW2, nextDW, ready, 
-                                    cwait, cnotif, cvHeld, sdres, jpanic, 
+                                    cwait, cnotif, cvHeld, sdres, jpanic, sfst, 
+                                    slotSt, qrSent, qrWaker, dnState, dnWaker, 
                                     parkTok, rv, rwb, rneed, dsl, dead, sti, 
                                     rq, sq, sj, ww, rsq, bown, bwk, bi, bcur, 
                                     bw, jq, jj, jwk, fj, dq, dj, oq, oop, 
-                                    omode, oj, yq, yop, tq, top, wf, wop, pf, 
-                                    pctx, pq, pj, pd, nq >>
+                                    omode, oj, yq, yop, tq, top, wf, wop, sf, 
+                                    sctx, xf, pf, pctx, pq, pj, pd, nq >>
 
 aw_park(self) == /\ pc[self] = "aw_park"
                  /\ parkTok[self]
@@ -2932,11 +3302,12 @@ aw_park(self) == /\ pc[self] = "aw_park"
                                  jkind, jaw, fres, fwaker, gfired, gwaker, 
                                  gthreads, dwSt, dwW, dblTaken, dblW1, dblW2, 
                                  nextDW, ready, cwait, cnotif, cvHeld, sdres, 
-                                 jpanic, rv, rwb, rneed, dsl, h, stack, dead, 
-                                 sti, rq, sq, sj, ww, rsq, bown, bwk, bi, bcur, 
-                                 bw, jq, jj, jwk, fj, dq, dj, oq, oop, omode, 
-                                 oj, yq, yop, tq, top, af, wf, wop, pf, pctx, 
-                                 pq, pj, pd, nq >>
+                                 jpanic, sfst, slotSt, qrSent, qrWaker, 
+                                 dnState, dnWaker, rv, rwb, rneed, dsl, h, 
+                                 stack, dead, sti, rq, sq, sj, ww, rsq, bown, 
+                                 bwk, bi, bcur, bw, jq, jj, jwk, fj, dq, dj, 
+                                 oq, oop, omode, oj, yq, yop, tq, top, af, wf, 
+                                 wop, sf, sctx, xf, pf, pctx, pq, pj, pd, nq >>
 
 Await(self) == z_aw_poll(self) \/ z_aw_after(self) \/ aw_park(self)
 
@@ -2974,10 +3345,12 @@ fs_take(self) == /\ pc[self] = "fs_take"
                                  jkind, jaw, fwaker, gfired, gwaker, gthreads, 
                                  dwSt, dwW, dblTaken, dblW1, dblW2, nextDW, 
                                  ready, cwait, cnotif, cvHeld, sdres, jpanic, 
-                                 parkTok, rwb, rneed, dsl, dead, sti, rq, sq, 
-                                 sj, ww, rsq, bown, bwk, bi, bcur, bw, jq, jj, 
-                                 jwk, fj, dq, dj, oq, oop, omode, oj, tq, top, 
-                                 af, pf, pctx, pq, pj, pd, nq >>
+                                 sfst, slotSt, qrSent, qrWaker, dnState, 
+                                 dnWaker, parkTok, rwb, rneed, dsl, dead, sti, 
+                                 rq, sq, sj, ww, rsq, bown, bwk, bi, bcur, bw, 
+                                 jq, jj, jwk, fj, dq, dj, oq, oop, omode, oj, 
+                                 tq, top, af, sf, sctx, xf, pf, pctx, pq, pj, 
+                                 pd, nq >>
 
 z_fs_after(self) == /\ pc[self] = "z_fs_after"
                     /\ IF rv[self] = 0
@@ -2994,14 +3367,319 @@ z_fs_after(self) == /\ pc[self] = "z_fs_after"
                                     maxThreads, jkind, jaw, fres, fwaker, 
                                     gfired, gwaker, gthreads, dwSt, dwW, 
                                     dblTaken, dblW1, dblW2, nextDW, ready, 
-                                    cwait, cnotif, cvHeld, sdres, jpanic, 
+                                    cwait, cnotif, cvHeld, sdres, jpanic, sfst, 
+                                    slotSt, qrSent, qrWaker, dnState, dnWaker, 
                                     parkTok, rv, rwb, rneed, dsl, dead, sti, 
                                     rq, sq, sj, ww, rsq, bown, bwk, bi, bcur, 
                                     bw, jq, jj, jwk, fj, dq, dj, oq, oop, 
-                                    omode, oj, yq, yop, tq, top, af, pf, pctx, 
-                                    pq, pj, pd, nq >>
+                                    omode, oj, yq, yop, tq, top, af, sf, sctx, 
+                                    xf, pf, pctx, pq, pj, pd, nq >>
 
 WaitSync(self) == fs_take(self) \/ z_fs_after(self)
+
+z_ps(self) == /\ pc[self] = "z_ps"
+              /\ IF sfst[sf[self]] = "WFQ"
+                    THEN /\ /\ pctx' = [pctx EXCEPT ![self] = sctx[self]]
+                            /\ pf' = [pf EXCEPT ![self] = sf[self]]
+                            /\ stack' = [stack EXCEPT ![self] = << [ procedure |->  "PollFuture",
+                                                                     pc        |->  "z_ps_q",
+                                                                     pq        |->  pq[self],
+                                                                     pj        |->  pj[self],
+                                                                     pd        |->  pd[self],
+                                                                     pf        |->  pf[self],
+                                                                     pctx      |->  pctx[self] ] >>
+                                                                 \o stack[self]]
+                         /\ pq' = [pq EXCEPT ![self] = 0]
+                         /\ pj' = [pj EXCEPT ![self] = 0]
+                         /\ pd' = [pd EXCEPT ![self] = 0]
+                         /\ pc' = [pc EXCEPT ![self] = "pf_decide"]
+                         /\ UNCHANGED << gwaker, rv, rsq, bown, bwk, bi, bcur, 
+                                         bw, sf, sctx >>
+                    ELSE /\ IF sfst[sf[self]] = "WFF"
+                               THEN /\ IF jaw[sf[self]] > 0 /\ Aw(sf[self])[jaw[sf[self]]] \notin gfired
+                                          THEN /\ gwaker' = [gwaker EXCEPT ![Aw(sf[self])[jaw[sf[self]]]] = sctx[self]]
+                                               /\ rv' = [rv EXCEPT ![self] = 5]
+                                               /\ pc' = [pc EXCEPT ![self] = Head(stack[self]).pc]
+                                               /\ sf' = [sf EXCEPT ![self] = Head(stack[self]).sf]
+                                               /\ sctx' = [sctx EXCEPT ![self] = Head(stack[self]).sctx]
+                                               /\ stack' = [stack EXCEPT ![self] = Tail(stack[self])]
+                                               /\ UNCHANGED << rsq, bown, bwk, 
+                                                               bi, bcur, bw >>
+                                          ELSE /\ /\ bown' = [bown EXCEPT ![self] = sf[self]]
+                                                  /\ bwk' = [bwk EXCEPT ![self] = sctx[self]]
+                                                  /\ rsq' = [rsq EXCEPT ![self] = Body(sf[self])]
+                                                  /\ stack' = [stack EXCEPT ![self] = << [ procedure |->  "RunOps",
+                                                                                           pc        |->  "z_ps_f",
+                                                                                           bi        |->  bi[self],
+                                                                                           bcur      |->  bcur[self],
+                                                                                           bw        |->  bw[self],
+                                                                                           rsq       |->  rsq[self],
+                                                                                           bown      |->  bown[self],
+                                                                                           bwk       |->  bwk[self] ] >>
+                                                                                       \o stack[self]]
+                                               /\ bi' = [bi EXCEPT ![self] = 0]
+                                               /\ bcur' = [bcur EXCEPT ![self] = 0]
+                                               /\ bw' = [bw EXCEPT ![self] = NoW]
+                                               /\ pc' = [pc EXCEPT ![self] = "rb_step"]
+                                               /\ UNCHANGED << gwaker, rv, sf, 
+                                                               sctx >>
+                               ELSE /\ IF sfst[sf[self]] = "WFS"
+                                          THEN /\ pc' = [pc EXCEPT ![self] = "z_ps_s"]
+                                               /\ UNCHANGED << rv, stack, sf, 
+                                                               sctx >>
+                                          ELSE /\ rv' = [rv EXCEPT ![self] = 4]
+                                               /\ pc' = [pc EXCEPT ![self] = Head(stack[self]).pc]
+                                               /\ sf' = [sf EXCEPT ![self] = Head(stack[self]).sf]
+                                               /\ sctx' = [sctx EXCEPT ![self] = Head(stack[self]).sctx]
+                                               /\ stack' = [stack EXCEPT ![self] = Tail(stack[self])]
+                                    /\ UNCHANGED << gwaker, rsq, bown, bwk, bi, 
+                                                    bcur, bw >>
+                         /\ UNCHANGED << pf, pctx, pq, pj, pd >>
+              /\ UNCHANGED << qstate, qpoll, jobs, wakeBlocked, schedule, 
+                              pthreads, nspawned, palive, busy, busyLocked, 
+                              inbox, chanOpen, pfin, thrHeld, maxThreads, 
+                              jkind, jaw, fres, fwaker, gfired, gthreads, dwSt, 
+                              dwW, dblTaken, dblW1, dblW2, nextDW, ready, 
+                              cwait, cnotif, cvHeld, sdres, jpanic, sfst, 
+                              slotSt, qrSent, qrWaker, dnState, dnWaker, 
+                              parkTok, rwb, rneed, dsl, h, dead, sti, rq, sq, 
+                              sj, ww, jq, jj, jwk, fj, dq, dj, oq, oop, omode, 
+                              oj, yq, yop, tq, top, af, wf, wop, xf, nq >>
+
+z_ps_q(self) == /\ pc[self] = "z_ps_q"
+                /\ IF rv[self] \in {2, 4}
+                      THEN /\ sfst' = [sfst EXCEPT ![sf[self]] = "Done"]
+                           /\ dnState' = [dnState EXCEPT ![sf[self]] = "sent"]
+                           /\ pc' = [pc EXCEPT ![self] = Head(stack[self]).pc]
+                           /\ sf' = [sf EXCEPT ![self] = Head(stack[self]).sf]
+                           /\ sctx' = [sctx EXCEPT ![self] = Head(stack[self]).sctx]
+                           /\ stack' = [stack EXCEPT ![self] = Tail(stack[self])]
+                           /\ UNCHANGED << qrWaker, rv, h, rsq, bown, bwk, bi, 
+                                           bcur, bw >>
+                      ELSE /\ IF qrSent[sf[self]]
+                                 THEN /\ sfst' = [sfst EXCEPT ![sf[self]] = "WFF"]
+                                      /\ h' = ObsStart(h, self, sf[self])
+                                      /\ /\ bown' = [bown EXCEPT ![self] = sf[self]]
+                                         /\ bwk' = [bwk EXCEPT ![self] = sctx[self]]
+                                         /\ rsq' = [rsq EXCEPT ![self] = Body(sf[self])]
+                                         /\ stack' = [stack EXCEPT ![self] = << [ procedure |->  "RunOps",
+                                                                                  pc        |->  "z_ps_f",
+                                                                                  bi        |->  bi[self],
+                                                                                  bcur      |->  bcur[self],
+                                                                                  bw        |->  bw[self],
+                                                                                  rsq       |->  rsq[self],
+                                                                                  bown      |->  bown[self],
+                                                                                  bwk       |->  bwk[self] ] >>
+                                                                              \o stack[self]]
+                                      /\ bi' = [bi EXCEPT ![self] = 0]
+                                      /\ bcur' = [bcur EXCEPT ![self] = 0]
+                                      /\ bw' = [bw EXCEPT ![self] = NoW]
+                                      /\ pc' = [pc EXCEPT ![self] = "rb_step"]
+                                      /\ UNCHANGED << qrWaker, rv, sf, sctx >>
+                                 ELSE /\ qrWaker' = [qrWaker EXCEPT ![sf[self]] = sctx[self]]
+                                      /\ rv' = [rv EXCEPT ![self] = 5]
+                                      /\ pc' = [pc EXCEPT ![self] = Head(stack[self]).pc]
+                                      /\ sf' = [sf EXCEPT ![self] = Head(stack[self]).sf]
+                                      /\ sctx' = [sctx EXCEPT ![self] = Head(stack[self]).sctx]
+                                      /\ stack' = [stack EXCEPT ![self] = Tail(stack[self])]
+                                      /\ UNCHANGED << sfst, h, rsq, bown, bwk, 
+                                                      bi, bcur, bw >>
+                           /\ UNCHANGED dnState
+                /\ UNCHANGED << qstate, qpoll, jobs, wakeBlocked, schedule, 
+                                pthreads, nspawned, palive, busy, busyLocked, 
+                                inbox, chanOpen, pfin, thrHeld, maxThreads, 
+                                jkind, jaw, fres, fwaker, gfired, gwaker, 
+                                gthreads, dwSt, dwW, dblTaken, dblW1, dblW2, 
+                                nextDW, ready, cwait, cnotif, cvHeld, sdres, 
+                                jpanic, slotSt, qrSent, dnWaker, parkTok, rwb, 
+                                rneed, dsl, dead, sti, rq, sq, sj, ww, jq, jj, 
+                                jwk, fj, dq, dj, oq, oop, omode, oj, yq, yop, 
+                                tq, top, af, wf, wop, xf, pf, pctx, pq, pj, pd, 
+                                nq >>
+
+z_ps_f(self) == /\ pc[self] = "z_ps_f"
+                /\ IF rv[self] = 5
+                      THEN /\ pc' = [pc EXCEPT ![self] = Head(stack[self]).pc]
+                           /\ sf' = [sf EXCEPT ![self] = Head(stack[self]).sf]
+                           /\ sctx' = [sctx EXCEPT ![self] = Head(stack[self]).sctx]
+                           /\ stack' = [stack EXCEPT ![self] = Tail(stack[self])]
+                           /\ UNCHANGED << sfst, dnState, parkTok, ww >>
+                      ELSE /\ IF rv[self] = 9
+                                 THEN /\ sfst' = [sfst EXCEPT ![sf[self]] = "Done"]
+                                      /\ dnState' = [dnState EXCEPT ![sf[self]] = "dropped"]
+                                      /\ IF IsLocking(dnWaker[sf[self]])
+                                            THEN /\ /\ stack' = [stack EXCEPT ![self] = << [ procedure |->  "Wake",
+                                                                                             pc        |->  "z_ps_panic",
+                                                                                             ww        |->  ww[self] ] >>
+                                                                                         \o stack[self]]
+                                                    /\ ww' = [ww EXCEPT ![self] = dnWaker[sf[self]]]
+                                                 /\ pc' = [pc EXCEPT ![self] = "wk_lock"]
+                                                 /\ UNCHANGED parkTok
+                                            ELSE /\ parkTok' = Unpark(parkTok, TaskOf(dnWaker[sf[self]]))
+                                                 /\ pc' = [pc EXCEPT ![self] = "z_ps_panic"]
+                                                 /\ UNCHANGED << stack, ww >>
+                                 ELSE /\ sfst' = [sfst EXCEPT ![sf[self]] = "WFS"]
+                                      /\ dnState' = [dnState EXCEPT ![sf[self]] = "sent"]
+                                      /\ IF IsLocking(dnWaker[sf[self]])
+                                            THEN /\ /\ stack' = [stack EXCEPT ![self] = << [ procedure |->  "Wake",
+                                                                                             pc        |->  "z_ps_s",
+                                                                                             ww        |->  ww[self] ] >>
+                                                                                         \o stack[self]]
+                                                    /\ ww' = [ww EXCEPT ![self] = dnWaker[sf[self]]]
+                                                 /\ pc' = [pc EXCEPT ![self] = "wk_lock"]
+                                                 /\ UNCHANGED parkTok
+                                            ELSE /\ parkTok' = Unpark(parkTok, TaskOf(dnWaker[sf[self]]))
+                                                 /\ pc' = [pc EXCEPT ![self] = "z_ps_s"]
+                                                 /\ UNCHANGED << stack, ww >>
+                           /\ UNCHANGED << sf, sctx >>
+                /\ UNCHANGED << qstate, qpoll, jobs, wakeBlocked, schedule, 
+                                pthreads, nspawned, palive, busy, busyLocked, 
+                                inbox, chanOpen, pfin, thrHeld, maxThreads, 
+                                jkind, jaw, fres, fwaker, gfired, gwaker, 
+                                gthreads, dwSt, dwW, dblTaken, dblW1, dblW2, 
+                                nextDW, ready, cwait, cnotif, cvHeld, sdres, 
+                                jpanic, slotSt, qrSent, qrWaker, dnWaker, rv, 
+                                rwb, rneed, dsl, h, dead, sti, rq, sq, sj, rsq, 
+                                bown, bwk, bi, bcur, bw, jq, jj, jwk, fj, dq, 
+                                dj, oq, oop, omode, oj, yq, yop, tq, top, af, 
+                                wf, wop, xf, pf, pctx, pq, pj, pd, nq >>
+
+z_ps_s(self) == /\ pc[self] = "z_ps_s"
+                /\ /\ pctx' = [pctx EXCEPT ![self] = sctx[self]]
+                   /\ pf' = [pf EXCEPT ![self] = sf[self]]
+                   /\ stack' = [stack EXCEPT ![self] = << [ procedure |->  "PollFuture",
+                                                            pc        |->  "z_ps_s2",
+                                                            pq        |->  pq[self],
+                                                            pj        |->  pj[self],
+                                                            pd        |->  pd[self],
+                                                            pf        |->  pf[self],
+                                                            pctx      |->  pctx[self] ] >>
+                                                        \o stack[self]]
+                /\ pq' = [pq EXCEPT ![self] = 0]
+                /\ pj' = [pj EXCEPT ![self] = 0]
+                /\ pd' = [pd EXCEPT ![self] = 0]
+                /\ pc' = [pc EXCEPT ![self] = "pf_decide"]
+                /\ UNCHANGED << qstate, qpoll, jobs, wakeBlocked, schedule, 
+                                pthreads, nspawned, palive, busy, busyLocked, 
+                                inbox, chanOpen, pfin, thrHeld, maxThreads, 
+                                jkind, jaw, fres, fwaker, gfired, gwaker, 
+                                gthreads, dwSt, dwW, dblTaken, dblW1, dblW2, 
+                                nextDW, ready, cwait, cnotif, cvHeld, sdres, 
+                                jpanic, sfst, slotSt, qrSent, qrWaker, dnState, 
+                                dnWaker, parkTok, rv, rwb, rneed, dsl, h, dead, 
+                                sti, rq, sq, sj, ww, rsq, bown, bwk, bi, bcur, 
+                                bw, jq, jj, jwk, fj, dq, dj, oq, oop, omode, 
+                                oj, yq, yop, tq, top, af, wf, wop, sf, sctx, 
+                                xf, nq >>
+
+z_ps_s2(self) == /\ pc[self] = "z_ps_s2"
+                 /\ IF rv[self] = 5
+                       THEN /\ pc' = [pc EXCEPT ![self] = Head(stack[self]).pc]
+                            /\ sf' = [sf EXCEPT ![self] = Head(stack[self]).sf]
+                            /\ sctx' = [sctx EXCEPT ![self] = Head(stack[self]).sctx]
+                            /\ stack' = [stack EXCEPT ![self] = Tail(stack[self])]
+                            /\ UNCHANGED << sfst, rv >>
+                       ELSE /\ sfst' = [sfst EXCEPT ![sf[self]] = "Done"]
+                            /\ rv' = [rv EXCEPT ![self] = 0]
+                            /\ pc' = [pc EXCEPT ![self] = Head(stack[self]).pc]
+                            /\ sf' = [sf EXCEPT ![self] = Head(stack[self]).sf]
+                            /\ sctx' = [sctx EXCEPT ![self] = Head(stack[self]).sctx]
+                            /\ stack' = [stack EXCEPT ![self] = Tail(stack[self])]
+                 /\ UNCHANGED << qstate, qpoll, jobs, wakeBlocked, schedule, 
+                                 pthreads, nspawned, palive, busy, busyLocked, 
+                                 inbox, chanOpen, pfin, thrHeld, maxThreads, 
+                                 jkind, jaw, fres, fwaker, gfired, gwaker, 
+                                 gthreads, dwSt, dwW, dblTaken, dblW1, dblW2, 
+                                 nextDW, ready, cwait, cnotif, cvHeld, sdres, 
+                                 jpanic, slotSt, qrSent, qrWaker, dnState, 
+                                 dnWaker, parkTok, rwb, rneed, dsl, h, dead, 
+                                 sti, rq, sq, sj, ww, rsq, bown, bwk, bi, bcur, 
+                                 bw, jq, jj, jwk, fj, dq, dj, oq, oop, omode, 
+                                 oj, yq, yop, tq, top, af, wf, wop, xf, pf, 
+                                 pctx, pq, pj, pd, nq >>
+
+z_ps_panic(self) == /\ pc[self] = "z_ps_panic"
+                    /\ rv' = [rv EXCEPT ![self] = 2]
+                    /\ pc' = [pc EXCEPT ![self] = Head(stack[self]).pc]
+                    /\ sf' = [sf EXCEPT ![self] = Head(stack[self]).sf]
+                    /\ sctx' = [sctx EXCEPT ![self] = Head(stack[self]).sctx]
+                    /\ stack' = [stack EXCEPT ![self] = Tail(stack[self])]
+                    /\ UNCHANGED << qstate, qpoll, jobs, wakeBlocked, schedule, 
+                                    pthreads, nspawned, palive, busy, 
+                                    busyLocked, inbox, chanOpen, pfin, thrHeld, 
+                                    maxThreads, jkind, jaw, fres, fwaker, 
+                                    gfired, gwaker, gthreads, dwSt, dwW, 
+                                    dblTaken, dblW1, dblW2, nextDW, ready, 
+                                    cwait, cnotif, cvHeld, sdres, jpanic, sfst, 
+                                    slotSt, qrSent, qrWaker, dnState, dnWaker, 
+                                    parkTok, rwb, rneed, dsl, h, dead, sti, rq, 
+                                    sq, sj, ww, rsq, bown, bwk, bi, bcur, bw, 
+                                    jq, jj, jwk, fj, dq, dj, oq, oop, omode, 
+                                    oj, yq, yop, tq, top, af, wf, wop, xf, pf, 
+                                    pctx, pq, pj, pd, nq >>
+
+PollSync(self) == z_ps(self) \/ z_ps_q(self) \/ z_ps_f(self)
+                     \/ z_ps_s(self) \/ z_ps_s2(self) \/ z_ps_panic(self)
+
+z_df(self) == /\ pc[self] = "z_df"
+              /\ IF K(xf[self]) # "fsync" \/ sfst[xf[self]] = "Done"
+                    THEN /\ h' = ObsDropped(h, self, xf[self])
+                         /\ rv' = [rv EXCEPT ![self] = 0]
+                         /\ pc' = [pc EXCEPT ![self] = Head(stack[self]).pc]
+                         /\ xf' = [xf EXCEPT ![self] = Head(stack[self]).xf]
+                         /\ stack' = [stack EXCEPT ![self] = Tail(stack[self])]
+                         /\ UNCHANGED << sfst, dnState, ww >>
+                    ELSE /\ IF sfst[xf[self]] = "WFF"
+                               THEN /\ h' = ObsEnd(h, self, xf[self])
+                               ELSE /\ TRUE
+                                    /\ h' = h
+                         /\ sfst' = [sfst EXCEPT ![xf[self]] = "Done"]
+                         /\ IF dnState[xf[self]] = "open"
+                               THEN /\ dnState' = [dnState EXCEPT ![xf[self]] = "dropped"]
+                                    /\ IF IsLocking(dnWaker[xf[self]])
+                                          THEN /\ /\ stack' = [stack EXCEPT ![self] = << [ procedure |->  "Wake",
+                                                                                           pc        |->  "z_df2",
+                                                                                           ww        |->  ww[self] ] >>
+                                                                                       \o stack[self]]
+                                                  /\ ww' = [ww EXCEPT ![self] = dnWaker[xf[self]]]
+                                               /\ pc' = [pc EXCEPT ![self] = "wk_lock"]
+                                          ELSE /\ pc' = [pc EXCEPT ![self] = "z_df2"]
+                                               /\ UNCHANGED << stack, ww >>
+                               ELSE /\ pc' = [pc EXCEPT ![self] = "z_df2"]
+                                    /\ UNCHANGED << dnState, stack, ww >>
+                         /\ UNCHANGED << rv, xf >>
+              /\ UNCHANGED << qstate, qpoll, jobs, wakeBlocked, schedule, 
+                              pthreads, nspawned, palive, busy, busyLocked, 
+                              inbox, chanOpen, pfin, thrHeld, maxThreads, 
+                              jkind, jaw, fres, fwaker, gfired, gwaker, 
+                              gthreads, dwSt, dwW, dblTaken, dblW1, dblW2, 
+                              nextDW, ready, cwait, cnotif, cvHeld, sdres, 
+                              jpanic, slotSt, qrSent, qrWaker, dnWaker, 
+                              parkTok, rwb, rneed, dsl, dead, sti, rq, sq, sj, 
+                              rsq, bown, bwk, bi, bcur, bw, jq, jj, jwk, fj, 
+                              dq, dj, oq, oop, omode, oj, yq, yop, tq, top, af, 
+                              wf, wop, sf, sctx, pf, pctx, pq, pj, pd, nq >>
+
+z_df2(self) == /\ pc[self] = "z_df2"
+               /\ h' = ObsDropped(h, self, xf[self])
+               /\ rv' = [rv EXCEPT ![self] = 0]
+               /\ pc' = [pc EXCEPT ![self] = Head(stack[self]).pc]
+               /\ xf' = [xf EXCEPT ![self] = Head(stack[self]).xf]
+               /\ stack' = [stack EXCEPT ![self] = Tail(stack[self])]
+               /\ UNCHANGED << qstate, qpoll, jobs, wakeBlocked, schedule, 
+                               pthreads, nspawned, palive, busy, busyLocked, 
+                               inbox, chanOpen, pfin, thrHeld, maxThreads, 
+                               jkind, jaw, fres, fwaker, gfired, gwaker, 
+                               gthreads, dwSt, dwW, dblTaken, dblW1, dblW2, 
+                               nextDW, ready, cwait, cnotif, cvHeld, sdres, 
+                               jpanic, sfst, slotSt, qrSent, qrWaker, dnState, 
+                               dnWaker, parkTok, rwb, rneed, dsl, dead, sti, 
+                               rq, sq, sj, ww, rsq, bown, bwk, bi, bcur, bw, 
+                               jq, jj, jwk, fj, dq, dj, oq, oop, omode, oj, yq, 
+                               yop, tq, top, af, wf, wop, sf, sctx, pf, pctx, 
+                               pq, pj, pd, nq >>
+
+DropFuture(self) == z_df(self) \/ z_df2(self)
 
 ds_max(self) == /\ pc[self] = "ds_max"
                 /\ TRUE
@@ -3012,11 +3690,12 @@ ds_max(self) == /\ pc[self] = "ds_max"
                                 jkind, jaw, fres, fwaker, gfired, gwaker, 
                                 gthreads, dwSt, dwW, dblTaken, dblW1, dblW2, 
                                 nextDW, ready, cwait, cnotif, cvHeld, sdres, 
-                                jpanic, parkTok, rv, rwb, rneed, dsl, h, stack, 
-                                dead, sti, rq, sq, sj, ww, rsq, bown, bwk, bi, 
-                                bcur, bw, jq, jj, jwk, fj, dq, dj, oq, oop, 
-                                omode, oj, yq, yop, tq, top, af, wf, wop, pf, 
-                                pctx, pq, pj, pd, nq >>
+                                jpanic, sfst, slotSt, qrSent, qrWaker, dnState, 
+                                dnWaker, parkTok, rv, rwb, rneed, dsl, h, 
+                                stack, dead, sti, rq, sq, sj, ww, rsq, bown, 
+                                bwk, bi, bcur, bw, jq, jj, jwk, fj, dq, dj, oq, 
+                                oop, omode, oj, yq, yop, tq, top, af, wf, wop, 
+                                sf, sctx, xf, pf, pctx, pq, pj, pd, nq >>
 
 ds_pop(self) == /\ pc[self] = "ds_pop"
                 /\ thrHeld = ""
@@ -3034,11 +3713,13 @@ ds_pop(self) == /\ pc[self] = "ds_pop"
                                 pfin, thrHeld, maxThreads, jkind, jaw, fres, 
                                 fwaker, gfired, gwaker, gthreads, dwSt, dwW, 
                                 dblTaken, dblW1, dblW2, nextDW, ready, cwait, 
-                                cnotif, cvHeld, sdres, jpanic, parkTok, rwb, 
-                                rneed, h, dead, sti, rq, sq, sj, ww, rsq, bown, 
-                                bwk, bi, bcur, bw, jq, jj, jwk, fj, dq, dj, oq, 
-                                oop, omode, oj, yq, yop, tq, top, af, wf, wop, 
-                                pf, pctx, pq, pj, pd, nq >>
+                                cnotif, cvHeld, sdres, jpanic, sfst, slotSt, 
+                                qrSent, qrWaker, dnState, dnWaker, parkTok, 
+                                rwb, rneed, h, dead, sti, rq, sq, sj, ww, rsq, 
+                                bown, bwk, bi, bcur, bw, jq, jj, jwk, fj, dq, 
+                                dj, oq, oop, omode, oj, yq, yop, tq, top, af, 
+                                wf, wop, sf, sctx, xf, pf, pctx, pq, pj, pd, 
+                                nq >>
 
 ds_join(self) == /\ pc[self] = "ds_join"
                  /\ pfin[Head(dsl[self])]
@@ -3056,11 +3737,12 @@ ds_join(self) == /\ pc[self] = "ds_join"
                                  jkind, jaw, fres, fwaker, gfired, gwaker, 
                                  gthreads, dwSt, dwW, dblTaken, dblW1, dblW2, 
                                  nextDW, ready, cwait, cnotif, cvHeld, sdres, 
-                                 jpanic, parkTok, rwb, rneed, dead, sti, rq, 
-                                 sq, sj, ww, rsq, bown, bwk, bi, bcur, bw, jq, 
-                                 jj, jwk, fj, dq, dj, oq, oop, omode, oj, yq, 
-                                 yop, tq, top, af, wf, wop, pf, pctx, pq, pj, 
-                                 pd, nq >>
+                                 jpanic, sfst, slotSt, qrSent, qrWaker, 
+                                 dnState, dnWaker, parkTok, rwb, rneed, dead, 
+                                 sti, rq, sq, sj, ww, rsq, bown, bwk, bi, bcur, 
+                                 bw, jq, jj, jwk, fj, dq, dj, oq, oop, omode, 
+                                 oj, yq, yop, tq, top, af, wf, wop, sf, sctx, 
+                                 xf, pf, pctx, pq, pj, pd, nq >>
 
 Despawn(self) == ds_max(self) \/ ds_pop(self) \/ ds_join(self)
 
@@ -3129,11 +3811,13 @@ pf_decide(self) == /\ pc[self] = "pf_decide"
                                    chanOpen, pfin, thrHeld, maxThreads, jkind, 
                                    jaw, gfired, gwaker, gthreads, dwSt, dwW, 
                                    dblTaken, dblW1, dblW2, nextDW, ready, 
-                                   cwait, cnotif, cvHeld, sdres, jpanic, 
+                                   cwait, cnotif, cvHeld, sdres, jpanic, sfst, 
+                                   slotSt, qrSent, qrWaker, dnState, dnWaker, 
                                    parkTok, rwb, rneed, dsl, h, dead, sti, rq, 
                                    sq, sj, ww, rsq, bown, bwk, bi, bcur, bw, 
                                    jq, jj, jwk, fj, dq, dj, oq, oop, omode, oj, 
-                                   yq, yop, tq, top, af, wf, wop, nq >>
+                                   yq, yop, tq, top, af, wf, wop, sf, sctx, xf, 
+                                   nq >>
 
 dq_res(self) == /\ pc[self] = "dq_res"
                 /\ IF fres[pf[self]] = "some"
@@ -3152,11 +3836,12 @@ dq_res(self) == /\ pc[self] = "dq_res"
                                 jkind, jaw, fwaker, gfired, gwaker, gthreads, 
                                 dwSt, dwW, dblTaken, dblW1, dblW2, nextDW, 
                                 ready, cwait, cnotif, cvHeld, sdres, jpanic, 
-                                parkTok, rwb, rneed, dsl, h, stack, dead, sti, 
-                                rq, sq, sj, ww, rsq, bown, bwk, bi, bcur, bw, 
-                                jq, jj, jwk, fj, dq, dj, oq, oop, omode, oj, 
-                                yq, yop, tq, top, af, wf, wop, pf, pctx, pq, 
-                                pj, pd, nq >>
+                                sfst, slotSt, qrSent, qrWaker, dnState, 
+                                dnWaker, parkTok, rwb, rneed, dsl, h, stack, 
+                                dead, sti, rq, sq, sj, ww, rsq, bown, bwk, bi, 
+                                bcur, bw, jq, jj, jwk, fj, dq, dj, oq, oop, 
+                                omode, oj, yq, yop, tq, top, af, wf, wop, sf, 
+                                sctx, xf, pf, pctx, pq, pj, pd, nq >>
 
 dq_deq(self) == /\ pc[self] = "dq_deq"
                 /\ IF qstate[pq[self]] \in Waiting \/ jobs[pq[self]] = << >>
@@ -3182,11 +3867,12 @@ dq_deq(self) == /\ pc[self] = "dq_deq"
                                 chanOpen, pfin, thrHeld, maxThreads, jkind, 
                                 jaw, fres, fwaker, gfired, gwaker, gthreads, 
                                 dwSt, dwW, dblTaken, dblW1, dblW2, ready, 
-                                cwait, cnotif, cvHeld, sdres, jpanic, parkTok, 
-                                rv, rwb, rneed, dsl, h, dead, sti, rq, sq, sj, 
-                                ww, rsq, bown, bwk, bi, bcur, bw, fj, dq, dj, 
-                                oq, oop, omode, oj, yq, yop, tq, top, af, wf, 
-                                wop, pf, pctx, pq, nq >>
+                                cwait, cnotif, cvHeld, sdres, jpanic, sfst, 
+                                slotSt, qrSent, qrWaker, dnState, dnWaker, 
+                                parkTok, rv, rwb, rneed, dsl, h, dead, sti, rq, 
+                                sq, sj, ww, rsq, bown, bwk, bi, bcur, bw, fj, 
+                                dq, dj, oq, oop, omode, oj, yq, yop, tq, top, 
+                                af, wf, wop, sf, sctx, xf, pf, pctx, pq, nq >>
 
 z_dq_after(self) == /\ pc[self] = "z_dq_after"
                     /\ IF rv[self] = 5
@@ -3217,12 +3903,13 @@ z_dq_after(self) == /\ pc[self] = "z_dq_after"
                                     maxThreads, jkind, jaw, fres, fwaker, 
                                     gfired, gwaker, gthreads, dwSt, dwW, 
                                     dblTaken, dblW1, dblW2, nextDW, ready, 
-                                    cwait, cnotif, cvHeld, sdres, jpanic, 
+                                    cwait, cnotif, cvHeld, sdres, jpanic, sfst, 
+                                    slotSt, qrSent, qrWaker, dnState, dnWaker, 
                                     parkTok, rv, rwb, rneed, dsl, h, dead, sti, 
                                     rq, sq, sj, ww, rsq, bown, bwk, bi, bcur, 
                                     bw, jq, jj, jwk, dq, dj, oq, oop, omode, 
-                                    oj, yq, yop, tq, top, af, wf, wop, pf, 
-                                    pctx, pq, pj, pd, nq >>
+                                    oj, yq, yop, tq, top, af, wf, wop, sf, 
+                                    sctx, xf, pf, pctx, pq, pj, pd, nq >>
 
 dq_requeue(self) == /\ pc[self] = "dq_requeue"
                     /\ jobs' = [jobs EXCEPT ![pq[self]] = << pj[self] >> \o jobs[pq[self]]]
@@ -3233,12 +3920,14 @@ dq_requeue(self) == /\ pc[self] = "dq_requeue"
                                     maxThreads, jkind, jaw, fres, fwaker, 
                                     gfired, gwaker, gthreads, dwSt, dwW, 
                                     dblTaken, dblW1, dblW2, nextDW, ready, 
-                                    cwait, cnotif, cvHeld, sdres, jpanic, 
+                                    cwait, cnotif, cvHeld, sdres, jpanic, sfst, 
+                                    slotSt, qrSent, qrWaker, dnState, dnWaker, 
                                     parkTok, rv, rwb, rneed, dsl, h, stack, 
                                     dead, sti, rq, sq, sj, ww, rsq, bown, bwk, 
                                     bi, bcur, bw, jq, jj, jwk, fj, dq, dj, oq, 
                                     oop, omode, oj, yq, yop, tq, top, af, wf, 
-                                    wop, pf, pctx, pq, pj, pd, nq >>
+                                    wop, sf, sctx, xf, pf, pctx, pq, pj, pd, 
+                                    nq >>
 
 dq_res2(self) == /\ pc[self] = "dq_res2"
                  /\ IF fres[pf[self]] = "some"
@@ -3257,11 +3946,12 @@ dq_res2(self) == /\ pc[self] = "dq_res2"
                                  jkind, jaw, fwaker, gfired, gwaker, gthreads, 
                                  dwSt, dwW, dblTaken, dblW1, dblW2, nextDW, 
                                  ready, cwait, cnotif, cvHeld, sdres, jpanic, 
-                                 parkTok, rwb, rneed, dsl, h, stack, dead, sti, 
-                                 rq, sq, sj, ww, rsq, bown, bwk, bi, bcur, bw, 
-                                 jq, jj, jwk, fj, dq, dj, oq, oop, omode, oj, 
-                                 yq, yop, tq, top, af, wf, wop, pf, pctx, pq, 
-                                 pj, pd, nq >>
+                                 sfst, slotSt, qrSent, qrWaker, dnState, 
+                                 dnWaker, parkTok, rwb, rneed, dsl, h, stack, 
+                                 dead, sti, rq, sq, sj, ww, rsq, bown, bwk, bi, 
+                                 bcur, bw, jq, jj, jwk, fj, dq, dj, oq, oop, 
+                                 omode, oj, yq, yop, tq, top, af, wf, wop, sf, 
+                                 sctx, xf, pf, pctx, pq, pj, pd, nq >>
 
 dq_waitwake(self) == /\ pc[self] = "dq_waitwake"
                      /\ qstate' = [qstate EXCEPT ![pq[self]] = "WaitingForWake"]
@@ -3273,12 +3963,13 @@ dq_waitwake(self) == /\ pc[self] = "dq_waitwake"
                                      fwaker, gfired, gwaker, gthreads, dwSt, 
                                      dwW, dblTaken, dblW1, dblW2, nextDW, 
                                      ready, cwait, cnotif, cvHeld, sdres, 
-                                     jpanic, parkTok, rv, rwb, rneed, dsl, h, 
-                                     stack, dead, sti, rq, sq, sj, ww, rsq, 
-                                     bown, bwk, bi, bcur, bw, jq, jj, jwk, fj, 
-                                     dq, dj, oq, oop, omode, oj, yq, yop, tq, 
-                                     top, af, wf, wop, pf, pctx, pq, pj, pd, 
-                                     nq >>
+                                     jpanic, sfst, slotSt, qrSent, qrWaker, 
+                                     dnState, dnWaker, parkTok, rv, rwb, rneed, 
+                                     dsl, h, stack, dead, sti, rq, sq, sj, ww, 
+                                     rsq, bown, bwk, bi, bcur, bw, jq, jj, jwk, 
+                                     fj, dq, dj, oq, oop, omode, oj, yq, yop, 
+                                     tq, top, af, wf, wop, sf, sctx, xf, pf, 
+                                     pctx, pq, pj, pd, nq >>
 
 dq_ww1(self) == /\ pc[self] = "dq_ww1"
                 /\ IF dwSt[pd[self]] = "Woken"
@@ -3299,10 +3990,12 @@ dq_ww1(self) == /\ pc[self] = "dq_ww1"
                                 jkind, jaw, fres, fwaker, gfired, gwaker, 
                                 gthreads, dblTaken, dblW1, dblW2, nextDW, 
                                 ready, cwait, cnotif, cvHeld, sdres, jpanic, 
-                                parkTok, rv, rwb, rneed, dsl, h, dead, sti, rq, 
-                                sq, sj, rsq, bown, bwk, bi, bcur, bw, jq, jj, 
-                                jwk, fj, dq, dj, oq, oop, omode, oj, yq, yop, 
-                                tq, top, af, wf, wop, pf, pctx, pq, pj, pd, nq >>
+                                sfst, slotSt, qrSent, qrWaker, dnState, 
+                                dnWaker, parkTok, rv, rwb, rneed, dsl, h, dead, 
+                                sti, rq, sq, sj, rsq, bown, bwk, bi, bcur, bw, 
+                                jq, jj, jwk, fj, dq, dj, oq, oop, omode, oj, 
+                                yq, yop, tq, top, af, wf, wop, sf, sctx, xf, 
+                                pf, pctx, pq, pj, pd, nq >>
 
 z_dq_ready(self) == /\ pc[self] = "z_dq_ready"
                     /\ pc' = [pc EXCEPT ![self] = Head(stack[self]).pc]
@@ -3318,12 +4011,13 @@ z_dq_ready(self) == /\ pc[self] = "z_dq_ready"
                                     maxThreads, jkind, jaw, fres, fwaker, 
                                     gfired, gwaker, gthreads, dwSt, dwW, 
                                     dblTaken, dblW1, dblW2, nextDW, ready, 
-                                    cwait, cnotif, cvHeld, sdres, jpanic, 
+                                    cwait, cnotif, cvHeld, sdres, jpanic, sfst, 
+                                    slotSt, qrSent, qrWaker, dnState, dnWaker, 
                                     parkTok, rv, rwb, rneed, dsl, h, dead, sti, 
                                     rq, sq, sj, ww, rsq, bown, bwk, bi, bcur, 
                                     bw, jq, jj, jwk, fj, dq, dj, oq, oop, 
                                     omode, oj, yq, yop, tq, top, af, wf, wop, 
-                                    nq >>
+                                    sf, sctx, xf, nq >>
 
 dq_setwaker(self) == /\ pc[self] = "dq_setwaker"
                      /\ fwaker' = [fwaker EXCEPT ![pf[self]] = pctx[self]]
@@ -3335,11 +4029,13 @@ dq_setwaker(self) == /\ pc[self] = "dq_setwaker"
                                      gfired, gwaker, gthreads, dwSt, dwW, 
                                      dblTaken, dblW1, dblW2, nextDW, ready, 
                                      cwait, cnotif, cvHeld, sdres, jpanic, 
-                                     parkTok, rv, rwb, rneed, dsl, h, stack, 
-                                     dead, sti, rq, sq, sj, ww, rsq, bown, bwk, 
-                                     bi, bcur, bw, jq, jj, jwk, fj, dq, dj, oq, 
-                                     oop, omode, oj, yq, yop, tq, top, af, wf, 
-                                     wop, pf, pctx, pq, pj, pd, nq >>
+                                     sfst, slotSt, qrSent, qrWaker, dnState, 
+                                     dnWaker, parkTok, rv, rwb, rneed, dsl, h, 
+                                     stack, dead, sti, rq, sq, sj, ww, rsq, 
+                                     bown, bwk, bi, bcur, bw, jq, jj, jwk, fj, 
+                                     dq, dj, oq, oop, omode, oj, yq, yop, tq, 
+                                     top, af, wf, wop, sf, sctx, xf, pf, pctx, 
+                                     pq, pj, pd, nq >>
 
 dq_waitpoll(self) == /\ pc[self] = "dq_waitpoll"
                      /\ qstate' = [qstate EXCEPT ![pq[self]] = "WaitingForPoll"]
@@ -3351,12 +4047,14 @@ dq_waitpoll(self) == /\ pc[self] = "dq_waitpoll"
                                      jkind, jaw, fres, fwaker, gfired, gwaker, 
                                      gthreads, dwSt, dwW, dblTaken, dblW1, 
                                      dblW2, nextDW, ready, cwait, cnotif, 
-                                     cvHeld, sdres, jpanic, parkTok, rv, rwb, 
-                                     rneed, dsl, h, stack, dead, sti, rq, sq, 
-                                     sj, ww, rsq, bown, bwk, bi, bcur, bw, jq, 
-                                     jj, jwk, fj, dq, dj, oq, oop, omode, oj, 
-                                     yq, yop, tq, top, af, wf, wop, pf, pctx, 
-                                     pq, pj, pd, nq >>
+                                     cvHeld, sdres, jpanic, sfst, slotSt, 
+                                     qrSent, qrWaker, dnState, dnWaker, 
+                                     parkTok, rv, rwb, rneed, dsl, h, stack, 
+                                     dead, sti, rq, sq, sj, ww, rsq, bown, bwk, 
+                                     bi, bcur, bw, jq, jj, jwk, fj, dq, dj, oq, 
+                                     oop, omode, oj, yq, yop, tq, top, af, wf, 
+                                     wop, sf, sctx, xf, pf, pctx, pq, pj, pd, 
+                                     nq >>
 
 dq_ww2(self) == /\ pc[self] = "dq_ww2"
                 /\ dblW1' = [dblW1 EXCEPT ![pd[self]] = WQ(pq[self])]
@@ -3378,11 +4076,13 @@ dq_ww2(self) == /\ pc[self] = "dq_ww2"
                                 inbox, chanOpen, pfin, thrHeld, maxThreads, 
                                 jkind, jaw, fres, fwaker, gfired, gwaker, 
                                 gthreads, dblTaken, nextDW, ready, cwait, 
-                                cnotif, cvHeld, sdres, jpanic, parkTok, rv, 
+                                cnotif, cvHeld, sdres, jpanic, sfst, slotSt, 
+                                qrSent, qrWaker, dnState, dnWaker, parkTok, rv, 
                                 rwb, rneed, dsl, h, dead, sti, rq, sq, sj, rsq, 
                                 bown, bwk, bi, bcur, bw, jq, jj, jwk, fj, dq, 
                                 dj, oq, oop, omode, oj, yq, yop, tq, top, af, 
-                                wf, wop, pf, pctx, pq, pj, pd, nq >>
+                                wf, wop, sf, sctx, xf, pf, pctx, pq, pj, pd, 
+                                nq >>
 
 z_dq_pending(self) == /\ pc[self] = "z_dq_pending"
                       /\ rv' = [rv EXCEPT ![self] = 5]
@@ -3400,11 +4100,12 @@ z_dq_pending(self) == /\ pc[self] = "z_dq_pending"
                                       fwaker, gfired, gwaker, gthreads, dwSt, 
                                       dwW, dblTaken, dblW1, dblW2, nextDW, 
                                       ready, cwait, cnotif, cvHeld, sdres, 
-                                      jpanic, parkTok, rwb, rneed, dsl, h, 
-                                      dead, sti, rq, sq, sj, ww, rsq, bown, 
-                                      bwk, bi, bcur, bw, jq, jj, jwk, fj, dq, 
-                                      dj, oq, oop, omode, oj, yq, yop, tq, top, 
-                                      af, wf, wop, nq >>
+                                      jpanic, sfst, slotSt, qrSent, qrWaker, 
+                                      dnState, dnWaker, parkTok, rwb, rneed, 
+                                      dsl, h, dead, sti, rq, sq, sj, ww, rsq, 
+                                      bown, bwk, bi, bcur, bw, jq, jj, jwk, fj, 
+                                      dq, dj, oq, oop, omode, oj, yq, yop, tq, 
+                                      top, af, wf, wop, sf, sctx, xf, nq >>
 
 dq_empty_w(self) == /\ pc[self] = "dq_empty_w"
                     /\ fwaker' = [fwaker EXCEPT ![pf[self]] = pctx[self]]
@@ -3415,12 +4116,13 @@ dq_empty_w(self) == /\ pc[self] = "dq_empty_w"
                                     maxThreads, jkind, jaw, fres, gfired, 
                                     gwaker, gthreads, dwSt, dwW, dblTaken, 
                                     dblW1, dblW2, nextDW, ready, cwait, cnotif, 
-                                    cvHeld, sdres, jpanic, parkTok, rv, rwb, 
-                                    rneed, dsl, h, stack, dead, sti, rq, sq, 
-                                    sj, ww, rsq, bown, bwk, bi, bcur, bw, jq, 
-                                    jj, jwk, fj, dq, dj, oq, oop, omode, oj, 
-                                    yq, yop, tq, top, af, wf, wop, pf, pctx, 
-                                    pq, pj, pd, nq >>
+                                    cvHeld, sdres, jpanic, sfst, slotSt, 
+                                    qrSent, qrWaker, dnState, dnWaker, parkTok, 
+                                    rv, rwb, rneed, dsl, h, stack, dead, sti, 
+                                    rq, sq, sj, ww, rsq, bown, bwk, bi, bcur, 
+                                    bw, jq, jj, jwk, fj, dq, dj, oq, oop, 
+                                    omode, oj, yq, yop, tq, top, af, wf, wop, 
+                                    sf, sctx, xf, pf, pctx, pq, pj, pd, nq >>
 
 dq_empty_idle(self) == /\ pc[self] = "dq_empty_idle"
                        /\ qstate' = [qstate EXCEPT ![pq[self]] = "Idle"]
@@ -3437,11 +4139,13 @@ dq_empty_idle(self) == /\ pc[self] = "dq_empty_idle"
                                        fwaker, gfired, gwaker, gthreads, dwSt, 
                                        dwW, dblTaken, dblW1, dblW2, nextDW, 
                                        ready, cwait, cnotif, cvHeld, sdres, 
-                                       jpanic, parkTok, rv, rwb, rneed, dsl, h, 
-                                       dead, sti, sq, sj, ww, rsq, bown, bwk, 
-                                       bi, bcur, bw, jq, jj, jwk, fj, dq, dj, 
-                                       oq, oop, omode, oj, yq, yop, tq, top, 
-                                       af, wf, wop, pf, pctx, pq, pj, pd, nq >>
+                                       jpanic, sfst, slotSt, qrSent, qrWaker, 
+                                       dnState, dnWaker, parkTok, rv, rwb, 
+                                       rneed, dsl, h, dead, sti, sq, sj, ww, 
+                                       rsq, bown, bwk, bi, bcur, bw, jq, jj, 
+                                       jwk, fj, dq, dj, oq, oop, omode, oj, yq, 
+                                       yop, tq, top, af, wf, wop, sf, sctx, xf, 
+                                       pf, pctx, pq, pj, pd, nq >>
 
 dq_idle(self) == /\ pc[self] = "dq_idle"
                  /\ qstate' = [qstate EXCEPT ![pq[self]] = "Idle"]
@@ -3457,11 +4161,12 @@ dq_idle(self) == /\ pc[self] = "dq_idle"
                                  jaw, fres, fwaker, gfired, gwaker, gthreads, 
                                  dwSt, dwW, dblTaken, dblW1, dblW2, nextDW, 
                                  ready, cwait, cnotif, cvHeld, sdres, jpanic, 
-                                 parkTok, rv, rwb, rneed, dsl, h, dead, sti, 
-                                 sq, sj, ww, rsq, bown, bwk, bi, bcur, bw, jq, 
-                                 jj, jwk, fj, dq, dj, oq, oop, omode, oj, yq, 
-                                 yop, tq, top, af, wf, wop, pf, pctx, pq, pj, 
-                                 pd, nq >>
+                                 sfst, slotSt, qrSent, qrWaker, dnState, 
+                                 dnWaker, parkTok, rv, rwb, rneed, dsl, h, 
+                                 dead, sti, sq, sj, ww, rsq, bown, bwk, bi, 
+                                 bcur, bw, jq, jj, jwk, fj, dq, dj, oq, oop, 
+                                 omode, oj, yq, yop, tq, top, af, wf, wop, sf, 
+                                 sctx, xf, pf, pctx, pq, pj, pd, nq >>
 
 dq_panic(self) == /\ pc[self] = "dq_panic"
                   /\ qstate' = [qstate EXCEPT ![pq[self]] = "Panicked"]
@@ -3479,10 +4184,12 @@ dq_panic(self) == /\ pc[self] = "dq_panic"
                                   jaw, fres, fwaker, gfired, gwaker, gthreads, 
                                   dwSt, dwW, dblTaken, dblW1, dblW2, nextDW, 
                                   ready, cwait, cnotif, cvHeld, sdres, jpanic, 
-                                  parkTok, rwb, rneed, dsl, h, dead, sti, rq, 
-                                  sq, sj, ww, rsq, bown, bwk, bi, bcur, bw, jq, 
-                                  jj, jwk, fj, dq, dj, oq, oop, omode, oj, yq, 
-                                  yop, tq, top, af, wf, wop, nq >>
+                                  sfst, slotSt, qrSent, qrWaker, dnState, 
+                                  dnWaker, parkTok, rwb, rneed, dsl, h, dead, 
+                                  sti, rq, sq, sj, ww, rsq, bown, bwk, bi, 
+                                  bcur, bw, jq, jj, jwk, fj, dq, dj, oq, oop, 
+                                  omode, oj, yq, yop, tq, top, af, wf, wop, sf, 
+                                  sctx, xf, nq >>
 
 PollFuture(self) == pf_decide(self) \/ dq_res(self) \/ dq_deq(self)
                        \/ z_dq_after(self) \/ dq_requeue(self)
@@ -3516,10 +4223,12 @@ c_start(self) == /\ pc[self] = "c_start"
                                  jkind, jaw, fres, fwaker, gfired, gwaker, 
                                  gthreads, dwSt, dwW, dblTaken, dblW1, dblW2, 
                                  nextDW, ready, cwait, cnotif, cvHeld, sdres, 
-                                 jpanic, parkTok, rv, rwb, rneed, dsl, h, dead, 
-                                 sti, rq, sq, sj, ww, jq, jj, jwk, fj, dq, dj, 
-                                 oq, oop, omode, oj, yq, yop, tq, top, af, wf, 
-                                 wop, pf, pctx, pq, pj, pd, nq >>
+                                 jpanic, sfst, slotSt, qrSent, qrWaker, 
+                                 dnState, dnWaker, parkTok, rv, rwb, rneed, 
+                                 dsl, h, dead, sti, rq, sq, sj, ww, jq, jj, 
+                                 jwk, fj, dq, dj, oq, oop, omode, oj, yq, yop, 
+                                 tq, top, af, wf, wop, sf, sctx, xf, pf, pctx, 
+                                 pq, pj, pd, nq >>
 
 z_c_exit(self) == /\ pc[self] = "z_c_exit"
                   /\ h' = ObsExit(h, self, 0, 0)
@@ -3530,11 +4239,13 @@ z_c_exit(self) == /\ pc[self] = "z_c_exit"
                                   jkind, jaw, fres, fwaker, gfired, gwaker, 
                                   gthreads, dwSt, dwW, dblTaken, dblW1, dblW2, 
                                   nextDW, ready, cwait, cnotif, cvHeld, sdres, 
-                                  jpanic, parkTok, rv, rwb, rneed, dsl, stack, 
-                                  dead, sti, rq, sq, sj, ww, rsq, bown, bwk, 
-                                  bi, bcur, bw, jq, jj, jwk, fj, dq, dj, oq, 
-                                  oop, omode, oj, yq, yop, tq, top, af, wf, 
-                                  wop, pf, pctx, pq, pj, pd, nq >>
+                                  jpanic, sfst, slotSt, qrSent, qrWaker, 
+                                  dnState, dnWaker, parkTok, rv, rwb, rneed, 
+                                  dsl, stack, dead, sti, rq, sq, sj, ww, rsq, 
+                                  bown, bwk, bi, bcur, bw, jq, jj, jwk, fj, dq, 
+                                  dj, oq, oop, omode, oj, yq, yop, tq, top, af, 
+                                  wf, wop, sf, sctx, xf, pf, pctx, pq, pj, pd, 
+                                  nq >>
 
 caller(self) == c_start(self) \/ z_c_exit(self)
 
@@ -3553,12 +4264,13 @@ pt_recv(self) == /\ pc[self] = "pt_recv"
                                  chanOpen, thrHeld, maxThreads, jkind, jaw, 
                                  fres, fwaker, gfired, gwaker, gthreads, dwSt, 
                                  dwW, dblTaken, dblW1, dblW2, nextDW, ready, 
-                                 cwait, cnotif, cvHeld, sdres, jpanic, parkTok, 
-                                 rv, rwb, rneed, dsl, stack, dead, sti, rq, sq, 
-                                 sj, ww, rsq, bown, bwk, bi, bcur, bw, jq, jj, 
-                                 jwk, fj, dq, dj, oq, oop, omode, oj, yq, yop, 
-                                 tq, top, af, wf, wop, pf, pctx, pq, pj, pd, 
-                                 nq >>
+                                 cwait, cnotif, cvHeld, sdres, jpanic, sfst, 
+                                 slotSt, qrSent, qrWaker, dnState, dnWaker, 
+                                 parkTok, rv, rwb, rneed, dsl, stack, dead, 
+                                 sti, rq, sq, sj, ww, rsq, bown, bwk, bi, bcur, 
+                                 bw, jq, jj, jwk, fj, dq, dj, oq, oop, omode, 
+                                 oj, yq, yop, tq, top, af, wf, wop, sf, sctx, 
+                                 xf, pf, pctx, pq, pj, pd, nq >>
 
 pt_next(self) == /\ pc[self] = "pt_next"
                  /\ LET r == NTR(schedule) IN
@@ -3576,11 +4288,12 @@ pt_next(self) == /\ pc[self] = "pt_next"
                                  maxThreads, jkind, jaw, fres, fwaker, gfired, 
                                  gwaker, gthreads, dwSt, dwW, dblTaken, dblW1, 
                                  dblW2, nextDW, ready, cwait, cnotif, cvHeld, 
-                                 sdres, jpanic, parkTok, rv, rwb, rneed, dsl, 
-                                 h, stack, dead, sti, rq, sq, sj, ww, rsq, 
+                                 sdres, jpanic, sfst, slotSt, qrSent, qrWaker, 
+                                 dnState, dnWaker, parkTok, rv, rwb, rneed, 
+                                 dsl, h, stack, dead, sti, rq, sq, sj, ww, rsq, 
                                  bown, bwk, bi, bcur, bw, jq, jj, jwk, fj, dq, 
                                  dj, oq, oop, omode, oj, yq, yop, tq, top, af, 
-                                 wf, wop, pf, pctx, pq, pj, pd >>
+                                 wf, wop, sf, sctx, xf, pf, pctx, pq, pj, pd >>
 
 pt_after(self) == /\ pc[self] = "pt_after"
                   /\ busyLocked' = [busyLocked EXCEPT ![self] = FALSE]
@@ -3602,11 +4315,13 @@ pt_after(self) == /\ pc[self] = "pt_after"
                                   pfin, thrHeld, maxThreads, jkind, jaw, fres, 
                                   fwaker, gfired, gwaker, gthreads, dwSt, dwW, 
                                   dblTaken, dblW1, dblW2, nextDW, ready, cwait, 
-                                  cnotif, cvHeld, sdres, jpanic, parkTok, rv, 
-                                  rwb, rneed, dsl, h, dead, sti, rq, sq, sj, 
-                                  ww, rsq, bown, bwk, bi, bcur, bw, jq, jj, 
+                                  cnotif, cvHeld, sdres, jpanic, sfst, slotSt, 
+                                  qrSent, qrWaker, dnState, dnWaker, parkTok, 
+                                  rv, rwb, rneed, dsl, h, dead, sti, rq, sq, 
+                                  sj, ww, rsq, bown, bwk, bi, bcur, bw, jq, jj, 
                                   jwk, fj, oq, oop, omode, oj, yq, yop, tq, 
-                                  top, af, wf, wop, pf, pctx, pq, pj, pd, nq >>
+                                  top, af, wf, wop, sf, sctx, xf, pf, pctx, pq, 
+                                  pj, pd, nq >>
 
 z_pt_chk(self) == /\ pc[self] = "z_pt_chk"
                   /\ IF rv[self] = 9
@@ -3621,11 +4336,12 @@ z_pt_chk(self) == /\ pc[self] = "z_pt_chk"
                                   jaw, fres, fwaker, gfired, gwaker, gthreads, 
                                   dwSt, dwW, dblTaken, dblW1, dblW2, nextDW, 
                                   ready, cwait, cnotif, cvHeld, sdres, jpanic, 
-                                  parkTok, rv, rwb, rneed, dsl, stack, dead, 
-                                  sti, rq, sq, sj, ww, rsq, bown, bwk, bi, 
-                                  bcur, bw, jq, jj, jwk, fj, dq, dj, oq, oop, 
-                                  omode, oj, yq, yop, tq, top, af, wf, wop, pf, 
-                                  pctx, pq, pj, pd, nq >>
+                                  sfst, slotSt, qrSent, qrWaker, dnState, 
+                                  dnWaker, parkTok, rv, rwb, rneed, dsl, stack, 
+                                  dead, sti, rq, sq, sj, ww, rsq, bown, bwk, 
+                                  bi, bcur, bw, jq, jj, jwk, fj, dq, dj, oq, 
+                                  oop, omode, oj, yq, yop, tq, top, af, wf, 
+                                  wop, sf, sctx, xf, pf, pctx, pq, pj, pd, nq >>
 
 z_pt_done(self) == /\ pc[self] = "z_pt_done"
                    /\ TRUE
@@ -3636,12 +4352,13 @@ z_pt_done(self) == /\ pc[self] = "z_pt_done"
                                    maxThreads, jkind, jaw, fres, fwaker, 
                                    gfired, gwaker, gthreads, dwSt, dwW, 
                                    dblTaken, dblW1, dblW2, nextDW, ready, 
-                                   cwait, cnotif, cvHeld, sdres, jpanic, 
+                                   cwait, cnotif, cvHeld, sdres, jpanic, sfst, 
+                                   slotSt, qrSent, qrWaker, dnState, dnWaker, 
                                    parkTok, rv, rwb, rneed, dsl, h, stack, 
                                    dead, sti, rq, sq, sj, ww, rsq, bown, bwk, 
                                    bi, bcur, bw, jq, jj, jwk, fj, dq, dj, oq, 
                                    oop, omode, oj, yq, yop, tq, top, af, wf, 
-                                   wop, pf, pctx, pq, pj, pd, nq >>
+                                   wop, sf, sctx, xf, pf, pctx, pq, pj, pd, nq >>
 
 pool(self) == pt_recv(self) \/ pt_next(self) \/ pt_after(self)
                  \/ z_pt_chk(self) \/ z_pt_done(self)
@@ -3656,7 +4373,8 @@ Next == (\E self \in ProcSet:  \/ ScheduleThread(self) \/ Reschedule(self)
                                \/ FinishJob(self) \/ PoolDrain(self)
                                \/ RunOne(self) \/ Sync(self)
                                \/ TrySync(self) \/ Await(self)
-                               \/ WaitSync(self) \/ Despawn(self)
+                               \/ WaitSync(self) \/ PollSync(self)
+                               \/ DropFuture(self) \/ Despawn(self)
                                \/ PollFuture(self))
            \/ (\E self \in Threads: caller(self))
            \/ (\E self \in PoolSet: pool(self))
